@@ -284,3 +284,1515 @@ Lemma nsp_cased m w r : w <> [] -> kword w = true -> nsp (cased m w ++ r).
 Proof.
   intros N K. apply nsp_name; [destruct w; [congruence|discriminate]|apply cased_all_name; exact K].
 Qed.
+
+(* ---- reserved words against literals ---- *)
+Fixpoint prefixb (w w' : str) : bool :=
+  match w with
+  | [] => true
+  | x :: wt => match w' with [] => false | y :: wt' => (y =? x) && prefixb wt wt' end
+  end.
+
+(* w and w' differ at a position both have *)
+Fixpoint mismatch (w w' : str) : bool :=
+  match w, w' with
+  | x :: wt, y :: wt' => if y =? x then mismatch wt wt' else true
+  | _, _ => false
+  end.
+
+Lemma lit_mismatch : forall w w' m rest, kword w' = true -> mismatch w w' = true -> lit w (cased m w' ++ rest) = None.
+Proof.
+  induction w as [|x wt IH]; intros w' m rest K M; [discriminate|].
+  destruct w' as [|y wt']; [discriminate|].
+  cbn [kword forallb] in K. apply andb_true_iff in K as [Ky K].
+  cbn [cased app lit mismatch] in *. rewrite (kwc_cased_up _ y Ky). destruct (y =? x); [apply IH; assumption|reflexivity].
+Qed.
+
+(* the printed word is a proper prefix of the literal: the literal runs into what follows *)
+Lemma lit_longer : forall w' w m rest, kword w' = true -> kword w = true -> prefixb w' w = true -> (length w' < length w)%nat ->
+  follow rest -> lit w (cased m w' ++ rest) = None.
+Proof.
+  induction w' as [|y wt' IH]; intros w m rest K' K P L F.
+  - cbn [cased app]. apply lit_follow; [exact K|destruct w; [cbn in L; lia|congruence]|exact F].
+  - destruct w as [|x wt]; [discriminate|]. cbn [prefixb] in P. apply andb_true_iff in P as [E P]. apply N.eqb_eq in E. subst x.
+    cbn [kword forallb] in K, K'. apply andb_true_iff in K as [_ K]. apply andb_true_iff in K' as [Ky K'].
+    cbn [cased app lit]. rewrite (kwc_cased_up _ y Ky), N.eqb_refl. apply IH; [assumption..|cbn [length] in L; lia|assumption].
+Qed.
+
+(* the literal is a prefix of the printed word *)
+Lemma lit_shorter : forall w w' m rest, kword w' = true -> prefixb w w' = true ->
+  lit w (cased m w' ++ rest) = Some (cased (skipn (length w) m) (skipn (length w) w') ++ rest).
+Proof.
+  induction w as [|x wt IH]; intros w' m rest K P; [reflexivity|].
+  destruct w' as [|y wt']; [discriminate|]. cbn [prefixb] in P. apply andb_true_iff in P as [E P]. apply N.eqb_eq in E. subst x.
+  cbn [kword forallb] in K. apply andb_true_iff in K as [Ky K].
+  cbn [cased app lit]. rewrite (kwc_cased_up _ y Ky), N.eqb_refl. rewrite (IH wt' (tl m) rest K P).
+  cbn [length]. destruct m; cbn [tl skipn]; [rewrite skipn_nil|]; reflexivity.
+Qed.
+
+Lemma lit_sep_then w a r : kword w = true -> w <> [] -> forallb sepc a = true -> lit w r = None -> lit w (a ++ r) = None.
+Proof.
+  intros K N A H. destruct a as [|c a]; [exact H|]. cbn [forallb] in A. apply andb_true_iff in A as [A _].
+  apply lit_follow; [exact K|exact N|]. right. exists c, (a ++ r). split; [reflexivity|exact A].
+Qed.
+
+Lemma firstn_cased m w rest : firstn (length w) (cased m w ++ rest) = cased m w.
+Proof. rewrite <- (cased_length m w). rewrite firstn_app, Nat.sub_diag, firstn_all. cbn [firstn]. apply app_nil_r. Qed.
+
+Lemma consumed_app t e : consumed (t ++ e) e = t.
+Proof.
+  unfold consumed. rewrite app_length. replace (length t + length e - length e)%nat with (length t) by lia.
+  rewrite firstn_app, Nat.sub_diag, firstn_all. cbn [firstn]. apply app_nil_r.
+Qed.
+
+(* ---- what may follow a clause ---- *)
+Definition lookahead_words : list str :=
+  [W_ASCENDING; W_DESCENDING; W_INDEXED; W_TIMES; W_TO; W_DEPENDING; W_RIGHT; W_LEFT; W_CHARACTER].
+
+Definition clean_next (r : list N) : Prop := forall w, In w lookahead_words -> lit w r = None.
+
+Definition tail_ok (rest : list N) : Prop :=
+  rest = [] \/ exists s r, rest = s ++ r /\ sepstr s /\ nsp r /\ clean_next r.
+
+Lemma clean_next_nil : clean_next [].
+Proof. intros w H. apply lit_nil_rest. unfold lookahead_words in H. cbn [In] in H. intuition (subst; discriminate). Qed.
+
+Lemma tail_ok_follow rest : tail_ok rest -> follow rest.
+Proof. intros [->|(s & r & -> & S & _)]; [left; reflexivity|apply sepstr_follow; exact S]. Qed.
+
+Lemma clean_next_kw m w' x : kword w' = true -> forallb (fun w => mismatch w w') lookahead_words = true -> clean_next (cased m w' ++ x).
+Proof.
+  intros K A w H. apply lit_mismatch; [exact K|]. rewrite forallb_forall in A. apply A. exact H.
+Qed.
+
+Lemma lookahead_kword : forall w, In w lookahead_words -> kword w = true /\ w <> [].
+Proof. intros w H. unfold lookahead_words in H. cbn [In] in H. intuition (subst; try reflexivity; discriminate). Qed.
+
+(* a literal of the lookahead list after any run of separator characters *)
+Lemma lit_tail w a r : In w lookahead_words -> forallb sepc a = true -> clean_next r -> lit w (a ++ r) = None.
+Proof. intros I A C. destruct (lookahead_kword w I). apply lit_sep_then; [assumption..|apply C; exact I]. Qed.
+
+(* ---- the KEY tail fails on a clean tail ---- *)
+Lemma plus_bt_sp_none {R} a r (k : list N -> option R) :
+  forallb sepc a = true -> nsp r -> (forall a', forallb sepc a' = true -> k (a' ++ r) = None) -> plus_bt is_sp (a ++ r) k = None.
+Proof.
+  intros A Rr K. induction a as [|c a IH].
+  - cbn [app]. destruct Rr as [->|(d & t & -> & F)]; [reflexivity|apply plus_bt_fail; exact F].
+  - cbn [forallb] in A. apply andb_true_iff in A as [Ac A]. cbn [app plus_bt]. rewrite (sepc_is_sp c Ac), (IH A). apply K. exact A.
+Qed.
+
+Lemma key_tail_clean rest : tail_ok rest -> key_tail rest = Some rest.
+Proof.
+  intros [->|(s & r & -> & S & Rn & C)]; [reflexivity|].
+  unfold key_tail. rewrite plus_bt_sp_none; [reflexivity|apply S|exact Rn|].
+  intros a' A'. cbn [star_A]. unfold key_A.
+  rewrite (lit_tail W_ASCENDING a' r), (lit_tail W_DESCENDING a' r); try assumption; try (unfold lookahead_words; cbn [In]; tauto).
+  unfold key_B. apply plus_bt_sp_none; [exact A'|exact Rn|].
+  intros a'' A''. rewrite (lit_tail W_INDEXED a'' r); try assumption; [reflexivity|unfold lookahead_words; cbn [In]; tauto].
+Qed.
+
+Lemma with_key_tail_clean g rest : tail_ok rest -> with_key_tail g rest = AYes g rest.
+Proof. intros T. unfold with_key_tail. rewrite (key_tail_clean rest T). reflexivity. Qed.
+
+(* ---- spellings ---- *)
+Definition spell_ok (sp : cspell) : Prop := forallb sep_ok (seps sp) = true.
+
+Lemma sep_sepstr sp i : spell_ok sp -> sepstr (sep sp i).
+Proof.
+  intros H. apply sep_ok_sepstr. unfold sep. unfold spell_ok in H. rewrite forallb_forall in H.
+  destruct (nth_in_or_default i (seps sp) [32]) as [I| ->]; [apply H; exact I|reflexivity].
+Qed.
+
+Lemma kw_unfold sp i w : kw sp i w = cased (nth i (masks sp) []) w.
+Proof. reflexivity. Qed.
+
+Lemma digit_is_nd c : is_digit c = true -> is_nd c = true.
+Proof.
+  unfold is_digit, is_nd, SR.Model.Picture.is_nd, SR.Model.Picture.ascii_digit. intros ->. reflexivity.
+Qed.
+
+Lemma digits1_app n r : digits_ok n = true -> follow r -> digits1 (n ++ r) = Some (n, r).
+Proof.
+  unfold digits_ok. intros H F. apply andb_true_iff in H as [N A]. unfold digits1. apply plus1_app.
+  - destruct n; [discriminate|congruence].
+  - clear N. induction n as [|c n IH]; [reflexivity|]. cbn [forallb] in *. apply andb_true_iff in A as [A1 A2].
+    rewrite (digit_is_nd c A1), (IH A2). reflexivity.
+  - apply follow_not_nd. exact F.
+Qed.
+
+Lemma times_part_printed sp i j rest : spell_ok sp -> times_part true (sep sp i ++ kw sp j K_TIMES ++ rest) = Some rest.
+Proof.
+  intros S. unfold times_part. rewrite (sp1_sep _ _ (sep_sepstr sp i S)); [|apply nsp_cased; [discriminate|reflexivity]].
+  unfold kw. change K_TIMES with W_TIMES. rewrite lit_cased by reflexivity. reflexivity.
+Qed.
+
+Lemma times_part_omitted rest : tail_ok rest -> times_part true rest = Some rest.
+Proof.
+  intros [->|(s & r & -> & S & Rn & C)]; [reflexivity|].
+  unfold times_part. rewrite (sp1_sep s r S Rn). rewrite (C W_TIMES); [reflexivity|unfold lookahead_words; cbn [In]; tauto].
+Qed.
+
+(* ================================================================ 3. alternatives *)
+Lemma token_at_unfold s : token_at s = try_alts [0; 1; 2; 3; 4; 5; 6; 7; 8; 9; 10; 11; 12; 13; 14] s.
+Proof. reflexivity. Qed.
+
+Lemma try_alts_no id ids s : alt id s = ANo -> try_alts (id :: ids) s = try_alts ids s.
+Proof. intros H. cbn [try_alts]. rewrite H. reflexivity. Qed.
+
+Lemma try_alts_yes id ids s g r : alt id s = AYes g r -> try_alts (id :: ids) s = Some (Tok id g, r).
+Proof. intros H. cbn [try_alts]. rewrite H. reflexivity. Qed.
+
+(* first letters (upper case) with which alternative id can start; alternative 0 starts with a SPACE character *)
+Definition firsts (id x : N) : bool :=
+  match id with
+  | 0 => false
+  | 1 => x =? 82 | 2 => x =? 66 | 3 => x =? 69 | 4 => x =? 71 | 5 => x =? 74 | 6 | 7 => x =? 79 | 8 => x =? 80
+  | 9 => s_mem x [83; 73; 76; 84] | 10 => x =? 83 | 11 => s_mem x [85; 73; 66; 67; 68; 80] | 12 => x =? 86 | 13 => x =? 70
+  | _ => true
+  end.
+
+Ltac lit_ne :=
+  repeat match goal with
+         | |- context [lit (?x :: ?w) (?c :: ?t)] => rewrite (lit_first_ne x w c t) by lia
+         end.
+
+Lemma word_sp_first_ne x w c t : up c <> x -> word_sp (x :: w) (c :: t) = None.
+Proof. intros H. unfold word_sp. rewrite lit_first_ne by exact H. reflexivity. Qed.
+
+Lemma prefix2_first_ne x1 w1 x2 w2 c t : up c <> x1 -> up c <> x2 -> prefix2 true (x1 :: w1) true (x2 :: w2) (c :: t) = [c :: t].
+Proof.
+  intros H1 H2. unfold prefix2, opt_word_sp. rewrite (word_sp_first_ne x1 w1 c t H1). cbn [flat_map app].
+  rewrite (word_sp_first_ne x2 w2 c t H2). reflexivity.
+Qed.
+
+Definition keyword_alts : list N := [0; 1; 2; 3; 4; 5; 6; 7; 8; 9; 10; 11; 12; 13].
+
+Lemma alt_first id c t : In id keyword_alts -> is_sp c = false -> firsts id (up c) = false -> alt id (c :: t) = ANo.
+Proof.
+  intros C S F. unfold keyword_alts in C. cbn [In] in C.
+  repeat destruct C as [C|C]; try contradiction; subst id; cbn [firsts s_mem existsb] in F.
+  - cbn [alt]. unfold alt_space, sp1. rewrite (plus1_fail is_sp c t S). reflexivity.
+  - cbn [alt]. unfold alt_redefines, word_sp, W_REDEFINES. lit_ne. reflexivity.
+  - cbn [alt]. unfold alt_blank, word_sp, W_BLANK. lit_ne. reflexivity.
+  - cbn [alt]. unfold alt_word, W_EXTERNAL. lit_ne. reflexivity.
+  - cbn [alt]. unfold alt_word, W_GLOBAL. lit_ne. reflexivity.
+  - cbn [alt]. unfold alt_justified, just_words, word_sp. cbn [first_some]. lit_ne. reflexivity.
+  - cbn [alt]. unfold alt_odo, word_sp, W_OCCURS. lit_ne. reflexivity.
+  - cbn [alt]. unfold alt_occurs, word_sp, W_OCCURS. lit_ne. reflexivity.
+  - cbn [alt]. unfold alt_picture, pic_words. cbn [first_some]. lit_ne. reflexivity.
+  - cbn [alt]. unfold alt_sign, sign_word_opt, sign_is_opt, W_SIGN, W_IS. rewrite prefix2_first_ne by lia.
+    cbn [first_some]. unfold sign_at, W_LEADING, W_TRAILING. cbn [first_some]. lit_ne. reflexivity.
+  - cbn [alt]. unfold alt_sync, sync_words. cbn [first_some]. lit_ne. reflexivity.
+  - cbn [alt]. unfold alt_usage, usage_word_opt, usage_is_opt, W_USAGE, W_IS. rewrite prefix2_first_ne by lia.
+    cbn [first_some]. unfold usage_at, usage_words. cbn [first_some]. lit_ne. reflexivity.
+  - cbn [alt]. unfold alt_value, W_VALUE. lit_ne. reflexivity.
+  - cbn [alt]. unfold alt_filler, W_FILLER. lit_ne. reflexivity.
+Qed.
+
+Lemma cased_cons m x w : cased m (x :: w) = (if hd false m then lower x else x) :: cased (tl m) w.
+Proof. reflexivity. Qed.
+
+Lemma alt_first_kw id m x w r : In id keyword_alts -> kwc x = true -> firsts id x = false -> alt id (cased m (x :: w) ++ r) = ANo.
+Proof.
+  intros I K F. rewrite cased_cons. cbn [app]. apply alt_first.
+  - exact I.
+  - apply name_char_not_sp. apply kwc_cased_name. exact K.
+  - rewrite (kwc_cased_up _ x K). exact F.
+Qed.
+
+(* skip the alternatives that cannot start with the first letter of the printed word *)
+Ltac skip_alts :=
+  repeat (rewrite try_alts_no by (apply alt_first_kw; [unfold keyword_alts; cbn [In]; tauto|reflexivity|reflexivity])).
+
+(* from the specification's key numbers to the model's keys *)
+Definition code_key (c : N) : key := nth (N.to_nat c) all_keys KName.
+Definition gmap (d : dict) : groups := map (fun kv => (code_key (fst kv), snd kv)) d.
+
+Ltac kwlit := rewrite lit_cased by reflexivity.
+Ltac assoc := rewrite <- ?app_assoc.
+
+Lemma tok_external sp rest : token_at (print_clause CExternal sp ++ rest) = Some (Tok 3 (gmap (bindings CExternal sp)), rest).
+Proof.
+  cbn [print_clause bindings gmap map]. rewrite token_at_unfold. unfold kw, K_EXTERNAL. skip_alts. apply try_alts_yes.
+  cbn [alt]. unfold alt_word. kwlit. reflexivity.
+Qed.
+
+Lemma tok_global sp rest : token_at (print_clause CGlobal sp ++ rest) = Some (Tok 4 (gmap (bindings CGlobal sp)), rest).
+Proof.
+  cbn [print_clause bindings gmap map]. rewrite token_at_unfold. unfold kw, K_GLOBAL. skip_alts. apply try_alts_yes.
+  cbn [alt]. unfold alt_word. kwlit. reflexivity.
+Qed.
+
+Lemma tok_filler sp rest : token_at (print_clause CFiller sp ++ rest) = Some (Tok 13 (gmap (bindings CFiller sp)), rest).
+Proof.
+  cbn [print_clause bindings gmap map]. rewrite token_at_unfold. unfold kw, K_FILLER. skip_alts. apply try_alts_yes.
+  cbn [alt]. unfold alt_filler. kwlit. change 6%nat with (length [70; 73; 76; 76; 69; 82]). rewrite firstn_cased. reflexivity.
+Qed.
+
+Lemma tok_redefines sp t rest : spell_ok sp -> name_ok t = true -> follow rest ->
+  token_at (print_clause (CRedefines t) sp ++ rest) = Some (Tok 1 (gmap (bindings (CRedefines t) sp)), rest).
+Proof.
+  intros S N F. unfold name_ok in N. apply andb_true_iff in N as [N _]. apply andb_true_iff in N as [N _].
+  apply andb_true_iff in N as [N0 N1]. assert (t <> []) by (destruct t; [discriminate|congruence]).
+  cbn [print_clause bindings gmap map]. assoc. rewrite token_at_unfold. unfold kw, K_REDEFINES. skip_alts. apply try_alts_yes.
+  cbn [alt]. unfold alt_redefines, word_sp. kwlit. rewrite (sp1_sep _ _ (sep_sepstr sp 0 S)) by (apply nsp_name; assumption).
+  rewrite name1_app by assumption. reflexivity.
+Qed.
+
+Lemma in_lookahead w : existsb (SR.Model.Clauses.str_eqb w) lookahead_words = true -> In w lookahead_words.
+Proof.
+  intros H. apply existsb_exists in H as (x & I & E). assert (w = x); [|subst; exact I].
+  clear I. revert x E. induction w as [|a w IH]; intros [|b x] E; try discriminate; [reflexivity|].
+  cbn [SR.Model.Clauses.str_eqb] in E. apply andb_true_iff in E as [E1 E2]. apply N.eqb_eq in E1. subst. f_equal. apply IH. exact E2.
+Qed.
+
+Ltac look := apply in_lookahead; reflexivity.
+
+(* what sp_word does at the end of a clause when the optional word is not written *)
+Lemma sp_word_tail w rest : In w lookahead_words -> tail_ok rest -> sp_word w rest = None.
+Proof.
+  intros I [->|(s & r & -> & S & Rn & C)]; [reflexivity|]. unfold sp_word. rewrite (sp1_sep s r S Rn). apply C. exact I.
+Qed.
+
+Lemma sp_word_printed sp i j w rest : spell_ok sp -> kword w = true -> w <> [] ->
+  sp_word w (sep sp i ++ kw sp j w ++ rest) = Some rest.
+Proof.
+  intros S K N. unfold sp_word. rewrite (sp1_sep _ _ (sep_sepstr sp i S)) by (apply nsp_cased; assumption).
+  unfold kw. rewrite lit_cased by exact K. reflexivity.
+Qed.
+
+Lemma word_sp_printed sp i j w x : spell_ok sp -> kword w = true -> nsp x ->
+  word_sp w (kw sp j w ++ sep sp i ++ x) = Some x.
+Proof.
+  intros S K N. unfold word_sp, kw. rewrite lit_cased by exact K. apply sp1_sep; [apply sep_sepstr; exact S|exact N].
+Qed.
+
+Lemma tok_blank sp rest : spell_ok sp -> (chN sp 1 =? 0) = true ->
+  token_at (print_clause CBlank sp ++ rest) = Some (Tok 2 (gmap (bindings CBlank sp)), rest).
+Proof.
+  intros S Z. apply N.eqb_eq in Z. cbn [print_clause bindings gmap map]. rewrite Z. change (zero_word 0) with K_ZERO.
+  assoc. rewrite token_at_unfold. unfold kw at 1, K_BLANK. skip_alts. apply try_alts_yes. cbn [alt]. unfold alt_blank.
+  change (cased (nth 0 (masks sp) []) [66; 76; 65; 78; 75]) with (kw sp 0 W_BLANK).
+  assert (Z4 : forall m r, zero_at (cased m K_ZERO ++ r) = Some ([(KBlank, cased m K_ZERO)], r)).
+  { intros m r. unfold zero_at, zero_words. cbn [first_some]. unfold K_ZERO. kwlit. rewrite firstn_cased. reflexivity. }
+  destruct (chb sp 0); cbn [opt app]; assoc.
+  - rewrite word_sp_printed; [|exact S|reflexivity|apply nsp_cased; [discriminate|reflexivity]].
+    unfold opt_word_sp, when_opt. change K_WHEN with W_WHEN.
+    rewrite word_sp_printed; [|exact S|reflexivity|apply nsp_cased; [discriminate|reflexivity]].
+    cbn [first_some]. unfold kw. rewrite Z4. reflexivity.
+  - rewrite word_sp_printed; [|exact S|reflexivity|apply nsp_cased; [discriminate|reflexivity]].
+    unfold opt_word_sp, when_opt, word_sp, kw. rewrite (lit_mismatch W_WHEN K_ZERO) by reflexivity.
+    cbn [first_some]. rewrite Z4. reflexivity.
+Qed.
+
+Lemma just_word_cases i : just_word i = K_JUSTIFIED \/ just_word i = K_JUST.
+Proof. unfold just_word. destruct (N.to_nat i) as [|[|n]]; cbn [nth]; [tauto|tauto|]. destruct n; tauto. Qed.
+
+Lemma sync_word_cases i : sync_word i = K_SYNCHRONIZED \/ sync_word i = K_SYNC.
+Proof. unfold sync_word. destruct (N.to_nat i) as [|[|n]]; cbn [nth]; [tauto|tauto|]. destruct n; tauto. Qed.
+
+Lemma pic_word_cases i : pic_word i = K_PIC \/ pic_word i = K_PICTURE.
+Proof. unfold pic_word. destruct (N.to_nat i) as [|[|n]]; cbn [nth]; [tauto|tauto|]. destruct n; tauto. Qed.
+
+(* JUSTIFIED RIGHT stops at its end; JUSTIFIED alone also takes the separator that follows it *)
+Lemma tok_just_right sp rest : spell_ok sp ->
+  token_at (print_clause (CJust true) sp ++ rest) = Some (Tok 5 (gmap (bindings (CJust true) sp)), rest).
+Proof.
+  intros S. cbn [print_clause bindings gmap map opt]. assoc. rewrite token_at_unfold.
+  assert (R5 : forall x, lit W_RIGHT (kw sp 1 K_RIGHT ++ x) = Some x) by (intros; unfold kw; kwlit; reflexivity).
+  assert (N5 : nsp (kw sp 1 K_RIGHT ++ rest)) by (apply nsp_cased; [discriminate|reflexivity]).
+  destruct (just_word_cases (chN sp 0)) as [-> | ->]; unfold kw at 1.
+  - unfold K_JUSTIFIED. skip_alts. apply try_alts_yes. cbn [alt]. unfold alt_justified, just_words. cbn [first_some].
+    change (cased (nth 0 (masks sp) []) [74; 85; 83; 84; 73; 70; 73; 69; 68]) with (kw sp 0 [74; 85; 83; 84; 73; 70; 73; 69; 68]).
+    rewrite word_sp_printed; [|exact S|reflexivity|exact N5]. rewrite R5.
+    change 5%nat with (length K_RIGHT). unfold kw. rewrite firstn_cased. reflexivity.
+  - unfold K_JUST. skip_alts. apply try_alts_yes. cbn [alt]. unfold alt_justified, just_words. cbn [first_some].
+    unfold word_sp at 1. rewrite (lit_longer [74; 85; 83; 84]); [|reflexivity|reflexivity|reflexivity|cbn; lia|apply sepstr_follow; apply sep_sepstr; exact S].
+    change (cased (nth 0 (masks sp) []) [74; 85; 83; 84]) with (kw sp 0 [74; 85; 83; 84]).
+    rewrite word_sp_printed; [|exact S|reflexivity|exact N5]. rewrite R5.
+    change 5%nat with (length K_RIGHT). unfold kw. rewrite firstn_cased. reflexivity.
+Qed.
+
+Lemma tok_just_plain sp s r : sepstr s -> nsp r -> clean_next r ->
+  token_at (print_clause (CJust false) sp ++ s ++ r) = Some (Tok 5 (gmap (bindings (CJust false) sp)), r).
+Proof.
+  intros S Rn C. cbn [print_clause bindings gmap map opt]. rewrite app_nil_r. rewrite token_at_unfold.
+  assert (R5 : lit W_RIGHT r = None) by (apply C; look).
+  destruct (just_word_cases (chN sp 0)) as [-> | ->]; unfold kw.
+  - unfold K_JUSTIFIED. skip_alts. apply try_alts_yes. cbn [alt]. unfold alt_justified, just_words. cbn [first_some].
+    unfold word_sp. kwlit. rewrite (sp1_sep s r S Rn), R5. reflexivity.
+  - unfold K_JUST. skip_alts. apply try_alts_yes. cbn [alt]. unfold alt_justified, just_words. cbn [first_some].
+    unfold word_sp. rewrite (lit_longer [74; 85; 83; 84]); [|reflexivity|reflexivity|reflexivity|cbn; lia|apply sepstr_follow; exact S].
+    kwlit. rewrite (sp1_sep s r S Rn), R5. reflexivity.
+Qed.
+
+Lemma word_sp_mismatch w w' m r : kword w' = true -> mismatch w w' = true -> word_sp w (cased m w' ++ r) = None.
+Proof. intros K M. unfold word_sp. rewrite (lit_mismatch w w' m r K M). reflexivity. Qed.
+
+(* the SIGN alternative on a word that is neither SIGN, IS, LEADING nor TRAILING *)
+Lemma alt_sign_other m x w r : kwc x = true -> kword w = true -> mismatch W_SIGN (x :: w) = true ->
+  s_mem x [73; 76; 84] = false -> alt 9 (cased m (x :: w) ++ r) = ANo.
+Proof.
+  intros Kx K M F. cbn [alt]. unfold alt_sign, prefix2, opt_word_sp, sign_word_opt, sign_is_opt.
+  rewrite (word_sp_mismatch W_SIGN (x :: w)); [|cbn [kword forallb]; rewrite Kx; exact K|exact M].
+  cbn [flat_map app]. rewrite cased_cons. cbn [app]. unfold W_IS. rewrite word_sp_first_ne.
+  2:{ rewrite (kwc_cased_up _ x Kx). unfold s_mem, existsb in F. lia. }
+  cbn [app first_some]. unfold sign_at, W_LEADING, W_TRAILING. cbn [first_some].
+  rewrite !lit_first_ne; [reflexivity|..]; rewrite (kwc_cased_up _ x Kx); unfold s_mem, existsb in F; lia.
+Qed.
+
+Lemma tok_sync sp side rest : spell_ok sp -> tail_ok rest ->
+  token_at (print_clause (CSync side) sp ++ rest) = Some (Tok 10 (gmap (bindings (CSync side) sp)), rest).
+Proof.
+  intros S T. cbn [print_clause bindings]. assoc. rewrite token_at_unfold.
+  assert (F : follow (opt (negb (side =? 0)) (side_text sp side) ++ rest)).
+  { destruct (side =? 0); cbn [negb opt app]; [apply tail_ok_follow; exact T|]. unfold side_text. assoc. apply sepstr_follow. apply sep_sepstr. exact S. }
+  assert (A : match first_some (fun w => sp_word w (opt (negb (side =? 0)) (side_text sp side) ++ rest)) [W_LEFT; W_RIGHT] with
+                | Some b => AYes [(KSynch, consumed (opt (negb (side =? 0)) (side_text sp side) ++ rest) b)] b
+                | None => AYes [] (opt (negb (side =? 0)) (side_text sp side) ++ rest)
+                end = AYes (gmap (if side =? 0 then [] else [(10, side_text sp side)])) rest).
+  { destruct (side =? 0) eqn:E0; cbn [negb opt app first_some].
+    - rewrite (sp_word_tail W_LEFT rest) by (look || exact T). rewrite (sp_word_tail W_RIGHT rest) by (look || exact T). reflexivity.
+    - unfold side_text, side_word. assoc. destruct (side =? 1).
+      + change K_LEFT with W_LEFT. rewrite sp_word_printed by (exact S || reflexivity || discriminate).
+        rewrite (app_assoc (sep sp 0)), consumed_app. reflexivity.
+      + unfold sp_word at 1. rewrite (sp1_sep _ _ (sep_sepstr sp 0 S)) by (apply nsp_cased; [discriminate|reflexivity]).
+        unfold kw at 1. rewrite (lit_mismatch W_LEFT K_RIGHT) by reflexivity.
+        change K_RIGHT with W_RIGHT. rewrite sp_word_printed by (exact S || reflexivity || discriminate).
+        rewrite (app_assoc (sep sp 0)), consumed_app. reflexivity. }
+  destruct (sync_word_cases (chN sp 0)) as [-> | ->]; unfold kw at 1.
+  - unfold K_SYNCHRONIZED. skip_alts. rewrite try_alts_no by (apply alt_sign_other; reflexivity). apply try_alts_yes.
+    cbn [alt]. unfold alt_sync, sync_words. cbn [first_some]. kwlit. exact A.
+  - unfold K_SYNC. skip_alts. rewrite try_alts_no by (apply alt_sign_other; reflexivity). apply try_alts_yes.
+    cbn [alt]. unfold alt_sync, sync_words. cbn [first_some].
+    rewrite (lit_longer [83; 89; 78; 67]); [|reflexivity|reflexivity|reflexivity|cbn; lia|exact F].
+    kwlit. exact A.
+Qed.
+
+Lemma opt_word_sp_first_ne x w c t : up c <> x -> opt_word_sp true (x :: w) (c :: t) = [c :: t].
+Proof. intros H. unfold opt_word_sp. rewrite (word_sp_first_ne x w c t H). reflexivity. Qed.
+
+Lemma opt_word_sp_kw_ne m x w y v r : kwc y = true -> y <> x -> opt_word_sp true (x :: w) (cased m (y :: v) ++ r) = [cased m (y :: v) ++ r].
+Proof. intros K N. rewrite cased_cons. cbn [app]. apply opt_word_sp_first_ne. rewrite (kwc_cased_up _ y K). exact N. Qed.
+
+(* LEADING / TRAILING SEPARATE [CHARACTER] from the sign word on *)
+Lemma sign_at_printed sp leading rest : spell_ok sp -> tail_ok rest ->
+  sign_at (kw sp 2 (sign_word leading) ++ separate_text sp ++ rest)
+  = Some ([(KSign, kw sp 2 (sign_word leading)); (KSignSep, separate_text sp)], rest).
+Proof.
+  intros S T. unfold sign_at.
+  assert (E : forall w, kword w = true -> w <> [] ->
+     match lit w (kw sp 2 w ++ separate_text sp ++ rest) with
+     | None => None
+     | Some r1 => match sign_sep_end r1 with
+                  | None => None
+                  | Some e => Some ([(KSign, firstn (length w) (kw sp 2 w ++ separate_text sp ++ rest)); (KSignSep, consumed r1 e)], e)
+                  end
+     end = Some ([(KSign, kw sp 2 w); (KSignSep, separate_text sp)], rest)).
+  { intros w K N. unfold kw at 1. rewrite lit_cased by exact K. unfold kw. rewrite firstn_cased.
+    unfold separate_text, sign_sep_end. assoc. change K_SEPARATE with W_SEPARATE.
+    rewrite sp_word_printed by (exact S || reflexivity || discriminate).
+    destruct (chb sp 1); cbn [opt app]; assoc.
+    - change K_CHARACTER with W_CHARACTER. rewrite sp_word_printed by (exact S || reflexivity || discriminate).
+      rewrite !app_assoc, consumed_app. reflexivity.
+    - rewrite (sp_word_tail W_CHARACTER rest) by (look || exact T).
+      rewrite !app_assoc, consumed_app. rewrite ?app_nil_r. reflexivity. }
+  destruct leading; cbn [sign_word first_some].
+  - change K_LEADING with W_LEADING. rewrite (E W_LEADING) by (reflexivity || discriminate). reflexivity.
+  - unfold kw at 1. rewrite (lit_mismatch W_LEADING K_TRAILING) by reflexivity.
+    change K_TRAILING with W_TRAILING. rewrite (E W_TRAILING) by (reflexivity || discriminate). reflexivity.
+Qed.
+
+Lemma tok_sign sp leading rest : spell_ok sp -> tail_ok rest ->
+  token_at (print_clause (CSign leading true) sp ++ rest) = Some (Tok 9 (gmap (bindings (CSign leading true) sp)), rest).
+Proof.
+  intros S T. cbn [print_clause bindings opt gmap map fst snd]. assoc. rewrite token_at_unfold.
+  pose proof (sign_at_printed sp leading rest S T) as A.
+  assert (NS : nsp (kw sp 2 (sign_word leading) ++ separate_text sp ++ rest)) by (apply nsp_cased; destruct leading; (discriminate || reflexivity)).
+  assert (I1 : opt_word_sp true W_IS (kw sp 2 (sign_word leading) ++ separate_text sp ++ rest) = [kw sp 2 (sign_word leading) ++ separate_text sp ++ rest]).
+  { unfold kw, W_IS. destruct leading; cbn [sign_word]; [unfold K_LEADING|unfold K_TRAILING]; apply opt_word_sp_kw_ne; (reflexivity || lia). }
+  unfold intro. destruct (chN sp 0) as [|[p|p|]]; cbn [app]; assoc.
+  - (* bare LEADING / TRAILING *)
+    assert (P : prefix2 true W_SIGN true W_IS (kw sp 2 (sign_word leading) ++ separate_text sp ++ rest) = [kw sp 2 (sign_word leading) ++ separate_text sp ++ rest]).
+    { unfold prefix2. assert (O : opt_word_sp true W_SIGN (kw sp 2 (sign_word leading) ++ separate_text sp ++ rest) = [kw sp 2 (sign_word leading) ++ separate_text sp ++ rest]).
+      { unfold kw, W_SIGN. destruct leading; cbn [sign_word]; [unfold K_LEADING|unfold K_TRAILING]; apply opt_word_sp_kw_ne; (reflexivity || lia). }
+      rewrite O. cbn [flat_map]. rewrite I1. reflexivity. }
+    destruct leading; cbn [sign_word] in *; unfold kw at 1; [unfold K_LEADING|unfold K_TRAILING]; skip_alts; apply try_alts_yes;
+      [change (cased (nth 2 (masks sp) []) [76; 69; 65; 68; 73; 78; 71]) with (kw sp 2 K_LEADING)
+      |change (cased (nth 2 (masks sp) []) [84; 82; 65; 73; 76; 73; 78; 71]) with (kw sp 2 K_TRAILING)];
+      cbn [alt]; unfold alt_sign, sign_word_opt, sign_is_opt; rewrite P; cbn [first_some]; rewrite A; reflexivity.
+  - (* SIGN IS *)
+    unfold kw at 1, K_SIGN. skip_alts. apply try_alts_yes. cbn [alt]. unfold alt_sign, sign_word_opt, sign_is_opt, prefix2.
+    change (cased (nth 0 (masks sp) []) [83; 73; 71; 78]) with (kw sp 0 W_SIGN).
+    unfold opt_word_sp at 2. rewrite word_sp_printed; [|exact S|reflexivity|apply nsp_cased; [discriminate|reflexivity]].
+    cbn [flat_map]. unfold opt_word_sp at 1. change K_IS with W_IS. rewrite word_sp_printed; [|exact S|reflexivity|exact NS].
+    cbn [app first_some]. rewrite A. reflexivity.
+  - unfold kw at 1, K_SIGN. skip_alts. apply try_alts_yes. cbn [alt]. unfold alt_sign, sign_word_opt, sign_is_opt, prefix2.
+    change (cased (nth 0 (masks sp) []) [83; 73; 71; 78]) with (kw sp 0 W_SIGN).
+    unfold opt_word_sp at 2. rewrite word_sp_printed; [|exact S|reflexivity|apply nsp_cased; [discriminate|reflexivity]].
+    cbn [flat_map]. unfold opt_word_sp at 1. change K_IS with W_IS. rewrite word_sp_printed; [|exact S|reflexivity|exact NS].
+    cbn [app first_some]. rewrite A. reflexivity.
+  - (* SIGN *)
+    unfold kw at 1, K_SIGN. skip_alts. apply try_alts_yes. cbn [alt]. unfold alt_sign, sign_word_opt, sign_is_opt, prefix2.
+    change (cased (nth 0 (masks sp) []) [83; 73; 71; 78]) with (kw sp 0 W_SIGN).
+    unfold opt_word_sp at 2. rewrite word_sp_printed; [|exact S|reflexivity|exact NS].
+    cbn [flat_map]. rewrite I1. cbn [app first_some]. rewrite A. reflexivity.
+Qed.
+
+Lemma word_sp_tail w rest : In w lookahead_words -> tail_ok rest ->
+  match sp1 rest with Some r => word_sp w r | None => None end = None.
+Proof.
+  intros I [->|(s & r & -> & S & Rn & C)]; [reflexivity|]. rewrite (sp1_sep s r S Rn). unfold word_sp. rewrite (C w I). reflexivity.
+Qed.
+
+Lemma digits_name n : digits_ok n = true -> n <> [] /\ forallb name_char n = true.
+Proof.
+  unfold digits_ok. intros D. apply andb_true_iff in D as [D0 D1]. split; [destruct n; [discriminate|congruence]|].
+  clear D0. induction n as [|c n IH]; [reflexivity|]. cbn [forallb] in *. apply andb_true_iff in D1 as [D1 D2].
+  rewrite (IH D2), andb_true_r. unfold name_char. rewrite D1. rewrite orb_true_r. reflexivity.
+Qed.
+
+(* the text after the number of a plain OCCURS clause: [separator TIMES] then a clean tail *)
+Definition occ_tail (sp : cspell) (i j : nat) (b : bool) (rest : list N) : list N := opt b (sep sp i ++ kw sp j K_TIMES) ++ rest.
+
+Lemma occ_tail_follow sp i j b rest : spell_ok sp -> tail_ok rest -> follow (occ_tail sp i j b rest).
+Proof.
+  intros S T. unfold occ_tail. destruct b; cbn [opt app]; [assoc; apply sepstr_follow; apply sep_sepstr; exact S|apply tail_ok_follow; exact T].
+Qed.
+
+Lemma occ_tail_times sp i j b rest : spell_ok sp -> tail_ok rest -> times_part true (occ_tail sp i j b rest) = Some rest.
+Proof.
+  intros S T. unfold occ_tail. destruct b; cbn [opt app]; [assoc; apply times_part_printed; exact S|apply times_part_omitted; exact T].
+Qed.
+
+Lemma occ_tail_no_word sp i j b rest w : spell_ok sp -> tail_ok rest -> In w lookahead_words -> mismatch w K_TIMES = true ->
+  match sp1 (occ_tail sp i j b rest) with Some r => word_sp w r | None => None end = None.
+Proof.
+  intros S T I M. unfold occ_tail. destruct b; cbn [opt app].
+  - assoc. rewrite (sp1_sep _ _ (sep_sepstr sp i S)) by (apply nsp_cased; [discriminate|reflexivity]).
+    unfold kw. apply word_sp_mismatch; [reflexivity|exact M].
+  - apply word_sp_tail; assumption.
+Qed.
+
+Lemma odo_with_min_plain sp i j b n rest : spell_ok sp -> digits_ok n = true -> tail_ok rest ->
+  odo_with_min (n ++ occ_tail sp i j b rest) = None.
+Proof.
+  intros S D T. unfold odo_with_min. rewrite (digits1_app n _ D (occ_tail_follow sp i j b rest S T)). cbv beta iota.
+  pose proof (occ_tail_no_word sp i j b rest W_TO S T ltac:(look) eq_refl) as Q.
+  destruct (sp1 (occ_tail sp i j b rest)); [rewrite Q|]; reflexivity.
+Qed.
+
+Lemma odo_from_max_plain sp i j b g n rest : spell_ok sp -> digits_ok n = true -> tail_ok rest ->
+  odo_from_max g (n ++ occ_tail sp i j b rest) = None.
+Proof.
+  intros S D T. unfold odo_from_max. rewrite (digits1_app n _ D (occ_tail_follow sp i j b rest S T)). cbv beta iota.
+  unfold times_odo_opt. rewrite (occ_tail_times sp i j b rest S T).
+  pose proof (word_sp_tail W_DEPENDING rest ltac:(look) T) as Q. destruct (sp1 rest); [rewrite Q|]; reflexivity.
+Qed.
+
+Lemma tok_occurs sp n rest : spell_ok sp -> digits_ok n = true -> tail_ok rest ->
+  token_at (print_clause (COccurs n None) sp ++ rest) = Some (Tok 7 (gmap (bindings (COccurs n None) sp)), rest).
+Proof.
+  intros S D T. cbn [print_clause print_ix bindings gmap map fst snd]. rewrite app_nil_r. assoc. rewrite token_at_unfold.
+  change (opt (chb sp 0) (sep sp 1 ++ kw sp 1 K_TIMES) ++ rest) with (occ_tail sp 1 1 (chb sp 0) rest).
+  pose proof (occ_tail_follow sp 1 1 (chb sp 0) rest S T) as FX.
+  destruct (digits_name n D) as [N0 N1].
+  assert (NX : nsp (n ++ occ_tail sp 1 1 (chb sp 0) rest)) by (apply nsp_name; assumption).
+  unfold kw at 1, K_OCCURS. skip_alts.
+  change (cased (nth 0 (masks sp) []) [79; 67; 67; 85; 82; 83]) with (kw sp 0 W_OCCURS).
+  rewrite try_alts_no.
+  2:{ cbn [alt]. unfold alt_odo. rewrite word_sp_printed; [|exact S|reflexivity|exact NX].
+      rewrite (odo_with_min_plain sp 1 1 _ n rest S D T), (odo_from_max_plain sp 1 1 _ [] n rest S D T). reflexivity. }
+  apply try_alts_yes. cbn [alt]. unfold alt_occurs. rewrite word_sp_printed; [|exact S|reflexivity|exact NX].
+  rewrite (digits1_app n _ D FX). cbv beta iota. unfold times_occ_opt. rewrite (occ_tail_times sp 1 1 _ rest S T).
+  apply with_key_tail_clean. exact T.
+Qed.
+
+(* ---- data names against literals ---- *)
+Lemma lit_name_split : forall w n rest r, kword w = true -> forallb name_char n = true -> follow rest ->
+  lit w (n ++ rest) = Some r -> ci_prefix w n = true /\ r = skipn (length w) n ++ rest /\ (length w <= length n)%nat.
+Proof.
+  induction w as [|x w IH]; intros n rest r K A F L.
+  - cbn [lit] in L. injection L as <-. repeat split. cbn [length]. lia.
+  - destruct n as [|c n].
+    + cbn [app] in L. rewrite lit_follow in L; [discriminate|exact K|discriminate|exact F].
+    + cbn [kword forallb] in K, A. apply andb_true_iff in K as [_ K]. apply andb_true_iff in A as [Ac A].
+      cbn [app lit] in L. rewrite (name_char_up c Ac) in L. destruct (upper c =? x) eqn:E; [|discriminate].
+      destruct (IH n rest r K A F L) as (P & R & Ln). cbn [ci_prefix skipn length]. rewrite E, P. repeat split; [exact R|lia].
+Qed.
+
+Lemma ci_equal_reserved w n : In w reserved_words -> ci_prefix w n = true -> length w = length n -> is_reserved n = true.
+Proof.
+  intros I P L. unfold is_reserved. apply existsb_exists. exists w. split; [exact I|]. unfold ci_equal. rewrite P, L. apply Nat.eqb_refl.
+Qed.
+
+Lemma name_ok_parts n : name_ok n = true -> n <> [] /\ forallb name_char n = true /\ is_reserved n = false /\ keyword_prefixed n = false.
+Proof.
+  unfold name_ok. intros H. apply andb_true_iff in H as [H H4]. apply andb_true_iff in H as [H H3]. apply andb_true_iff in H as [H1 H2].
+  repeat split; [destruct n; [discriminate|congruence]|exact H2|destruct (is_reserved n); [discriminate|reflexivity]|
+                 destruct (keyword_prefixed n); [discriminate|reflexivity]].
+Qed.
+
+Lemma forallb_skipn {A} (p : A -> bool) k l : forallb p l = true -> forallb p (skipn k l) = true.
+Proof.
+  revert l. induction k as [|k IH]; intros l H; [exact H|]. destruct l as [|a l]; [reflexivity|].
+  cbn [skipn]. cbn [forallb] in H. apply andb_true_iff in H as [_ H]. apply IH. exact H.
+Qed.
+
+(* after a reserved word matched at the start of a data name, the name goes on *)
+Lemma lit_name_goes_on w n rest r : kword w = true -> In w reserved_words -> name_ok n = true -> follow rest ->
+  lit w (n ++ rest) = Some r -> exists c t, r = c :: t /\ name_char c = true.
+Proof.
+  intros K I N F L. destruct (name_ok_parts n N) as (N0 & A & R & _).
+  destruct (lit_name_split w n rest r K A F L) as (P & E & Ln).
+  destruct (skipn (length w) n) as [|c t] eqn:Sk.
+  - assert (length n <= length w)%nat. { destruct (Nat.le_gt_cases (length n) (length w)) as [|G]; [assumption|].
+      assert (length (skipn (length w) n) = (length n - length w)%nat) by apply skipn_length. rewrite Sk in H. cbn in H. lia. }
+    rewrite (ci_equal_reserved w n I P) in R; [discriminate|lia].
+  - exists c, (t ++ rest). split; [subst r; reflexivity|].
+    pose proof (forallb_skipn name_char (length w) n A) as Q. rewrite Sk in Q. cbn [forallb] in Q. apply andb_true_iff in Q as [Q _]. exact Q.
+Qed.
+
+Lemma word_sp_name_none w n rest : kword w = true -> In w reserved_words -> name_ok n = true -> follow rest -> word_sp w (n ++ rest) = None.
+Proof.
+  intros K I N F. unfold word_sp. destruct (lit w (n ++ rest)) as [r|] eqn:L; [|reflexivity].
+  destruct (lit_name_goes_on w n rest r K I N F L) as (c & t & -> & C).
+  unfold sp1. rewrite (plus1_fail is_sp c t (name_char_not_sp c C)). reflexivity.
+Qed.
+
+Ltac reserved := unfold reserved_words; cbn [In]; tauto.
+
+Lemma dep_name_printed sp dep rest : spell_ok sp -> name_ok dep = true -> follow rest ->
+  dep_name (opt (chb sp 1) (kw sp 4 K_ON ++ sep sp 6) ++ dep ++ rest) = Some (dep, rest).
+Proof.
+  intros S N F. destruct (name_ok_parts dep N) as (N0 & A & _ & _). unfold dep_name.
+  destruct (chb sp 1); cbn [opt app]; assoc.
+  - change K_ON with W_ON. rewrite word_sp_printed; [|exact S|reflexivity|apply nsp_name; assumption].
+    rewrite name1_app by assumption. reflexivity.
+  - rewrite (word_sp_name_none W_ON dep rest) by (reflexivity || reserved || assumption).
+    unfold on_opt. apply name1_app; assumption.
+Qed.
+
+Lemma odo_from_max_printed sp g mx dep rest : spell_ok sp -> digits_ok mx = true -> name_ok dep = true -> follow rest ->
+  odo_from_max g (mx ++ opt (chb sp 0) (sep sp 3 ++ kw sp 2 K_TIMES) ++ sep sp 4 ++ kw sp 3 K_DEPENDING ++ sep sp 5
+                    ++ opt (chb sp 1) (kw sp 4 K_ON ++ sep sp 6) ++ dep ++ rest)
+  = Some (g ++ [(KOdoMax, mx); (KDepending, dep)], rest).
+Proof.
+  intros S D N F. destruct (name_ok_parts dep N) as (N0 & A & _ & _).
+  set (Z := opt (chb sp 1) (kw sp 4 K_ON ++ sep sp 6) ++ dep ++ rest).
+  assert (NZ : nsp Z).
+  { unfold Z. destruct (chb sp 1); cbn [opt app]; assoc; [apply nsp_cased; [discriminate|reflexivity]|apply nsp_name; assumption]. }
+  set (Y := sep sp 4 ++ kw sp 3 K_DEPENDING ++ sep sp 5 ++ Z).
+  assert (ND : nsp (kw sp 3 K_DEPENDING ++ sep sp 5 ++ Z)) by (apply nsp_cased; [discriminate|reflexivity]).
+  assert (TP : times_part true (opt (chb sp 0) (sep sp 3 ++ kw sp 2 K_TIMES) ++ Y) = Some Y).
+  { destruct (chb sp 0); cbn [opt app]; [assoc; apply times_part_printed; exact S|].
+    unfold times_part, Y. rewrite (sp1_sep _ _ (sep_sepstr sp 4 S) ND). unfold kw. rewrite (lit_mismatch W_TIMES K_DEPENDING) by reflexivity. reflexivity. }
+  assert (FY : follow (opt (chb sp 0) (sep sp 3 ++ kw sp 2 K_TIMES) ++ Y)).
+  { destruct (chb sp 0); cbn [opt app]; [assoc|unfold Y]; apply sepstr_follow; apply sep_sepstr; exact S. }
+  unfold odo_from_max. rewrite (digits1_app mx _ D FY). cbv beta iota. unfold times_odo_opt. rewrite TP.
+  unfold Y at 1. rewrite (sp1_sep _ _ (sep_sepstr sp 4 S) ND). change K_DEPENDING with W_DEPENDING.
+  rewrite word_sp_printed; [|exact S|reflexivity|exact NZ]. unfold Z. rewrite (dep_name_printed sp dep rest S N F). reflexivity.
+Qed.
+
+Lemma tok_odo sp mn mx dep rest : spell_ok sp -> (match mn with Some m => digits_ok m | None => true end) = true ->
+  digits_ok mx = true -> name_ok dep = true -> tail_ok rest ->
+  token_at (print_clause (COdo mn mx dep None) sp ++ rest) = Some (Tok 6 (gmap (bindings (COdo mn mx dep None) sp)), rest).
+Proof.
+  intros S Dm D N T. pose proof (tail_ok_follow rest T) as F.
+  cbn [print_clause print_ix bindings]. rewrite app_nil_r. assoc. rewrite token_at_unfold.
+  set (M := mx ++ opt (chb sp 0) (sep sp 3 ++ kw sp 2 K_TIMES) ++ sep sp 4 ++ kw sp 3 K_DEPENDING ++ sep sp 5
+                    ++ opt (chb sp 1) (kw sp 4 K_ON ++ sep sp 6) ++ dep ++ rest).
+  assert (PM : forall g, odo_from_max g M = Some (g ++ [(KOdoMax, mx); (KDepending, dep)], rest)).
+  { intros g. apply odo_from_max_printed; assumption. }
+  destruct (digits_name mx D) as [X0 X1].
+  assert (NM : nsp M) by (apply nsp_name; assumption).
+  unfold kw at 1, K_OCCURS. skip_alts. apply try_alts_yes.
+  change (cased (nth 0 (masks sp) []) [79; 67; 67; 85; 82; 83]) with (kw sp 0 W_OCCURS).
+  cbn [alt]. unfold alt_odo. destruct mn as [m|]; assoc.
+  - destruct (digits_name m Dm) as [M0 M1].
+    rewrite word_sp_printed; [|exact S|reflexivity|apply nsp_name; assumption].
+    unfold odo_with_min. rewrite (digits1_app m) by (assumption || (apply sepstr_follow; apply sep_sepstr; exact S)). cbv beta iota.
+    rewrite (sp1_sep _ _ (sep_sepstr sp 1 S)) by (apply nsp_cased; [discriminate|reflexivity]).
+    change K_TO with W_TO. rewrite word_sp_printed; [|exact S|reflexivity|exact NM].
+    fold M. rewrite PM. cbn [gmap map app fst snd]. apply with_key_tail_clean. exact T.
+  - cbn [app]. rewrite word_sp_printed; [|exact S|reflexivity|exact NM].
+    assert (W : odo_with_min M = None).
+    { unfold odo_with_min, M.
+      assert (FY : follow (opt (chb sp 0) (sep sp 3 ++ kw sp 2 K_TIMES) ++ sep sp 4 ++ kw sp 3 K_DEPENDING ++ sep sp 5
+                    ++ opt (chb sp 1) (kw sp 4 K_ON ++ sep sp 6) ++ dep ++ rest)).
+      { destruct (chb sp 0); cbn [opt app]; assoc; apply sepstr_follow; apply sep_sepstr; exact S. }
+      rewrite (digits1_app mx _ D FY). cbv beta iota.
+      destruct (chb sp 0); cbn [opt app]; assoc.
+      - rewrite (sp1_sep _ _ (sep_sepstr sp 3 S)) by (apply nsp_cased; [discriminate|reflexivity]).
+        unfold kw at 1. rewrite (word_sp_mismatch W_TO K_TIMES) by reflexivity. reflexivity.
+      - rewrite (sp1_sep _ _ (sep_sepstr sp 4 S)) by (apply nsp_cased; [discriminate|reflexivity]).
+        unfold kw at 1. rewrite (word_sp_mismatch W_TO K_DEPENDING) by reflexivity. reflexivity. }
+    rewrite W, PM. cbn [gmap map app fst snd]. apply with_key_tail_clean. exact T.
+Qed.
+
+(* ---- picture strings and VALUE words ---- *)
+Definition blank_tail (rest : list N) : Prop := rest = [] \/ exists c t, rest = c :: t /\ is_blank c = true.
+
+Lemma nonws1_word p rest : p <> [] -> forallb printable_char p = true -> blank_tail rest -> nonws1 (p ++ rest) = Some (p, rest).
+Proof.
+  intros N A B. unfold nonws1. apply plus1_app; [exact N| |].
+  - clear N. induction p as [|c p IH]; [reflexivity|]. cbn [forallb] in *. apply andb_true_iff in A as [A1 A2].
+    unfold non_ws at 1. rewrite (printable_not_ws c A1), (IH A2). reflexivity.
+  - destruct B as [->|(c & t & -> & B)]; [left; reflexivity|right]. exists c, t. split; [reflexivity|].
+    unfold non_ws. rewrite (blank_is_ws c B). reflexivity.
+Qed.
+
+Lemma printable_lt c : printable_char c = true -> c <? 128 = true.
+Proof. unfold printable_char. lia. Qed.
+
+(* a word that starts with a printable character other than I, comma, semicolon, bar *)
+Lemma word_start c t x : printable_char c = true -> upper c <> 73 -> s_mem c [124; 44; 59] = false ->
+  nsp ((c :: t) ++ x) /\ lit W_IS ((c :: t) ++ x) = None.
+Proof.
+  intros P U M. split.
+  - cbn [app]. apply nsp_cons. rewrite (printable_sp c P). exact M.
+  - cbn [app]. unfold W_IS. apply lit_first_ne. rewrite (up_ascii c (printable_lt c P)). exact U.
+Qed.
+
+Lemma is_then_printed {sp} (b : bool) body v rest x : spell_ok sp -> nsp (v ++ rest) -> lit W_IS (v ++ rest) = None ->
+  body (v ++ rest) = Some x -> is_then true body (opt b (kw sp 1 K_IS ++ sep sp 1) ++ v ++ rest) = Some x.
+Proof.
+  intros S Nv L B. unfold is_then. destruct b; cbn [opt app]; assoc.
+  - unfold kw. change K_IS with W_IS. kwlit. rewrite (plus_bt_sep _ _ body x (sep_sepstr sp 1 S) Nv B). reflexivity.
+  - rewrite L. exact B.
+Qed.
+
+Lemma is_then_nsp sp (b : bool) v rest : nsp (v ++ rest) -> nsp (opt b (kw sp 1 K_IS ++ sep sp 1) ++ v ++ rest).
+Proof. intros H. destruct b; cbn [opt app]; [assoc; apply nsp_cased; [discriminate|reflexivity]|exact H]. Qed.
+
+Lemma pic_ok_parts p : pic_ok p = true ->
+  p <> [] /\ forallb printable_char p = true /\ forall x, nsp (p ++ x) /\ lit W_IS (p ++ x) = None.
+Proof.
+  destruct p as [|c t]; [discriminate|]. cbn [pic_ok]. intros H. apply andb_true_iff in H as [H A]. apply andb_true_iff in H as [H1 H2].
+  assert (AP : forallb printable_char (c :: t) = true).
+  { clear H1 H2. induction (c :: t) as [|d l IH]; [reflexivity|]. cbn [forallb] in *. apply andb_true_iff in A as [A1 A2].
+    rewrite (IH A2), andb_true_r. unfold pic_char in A1. unfold printable_char. lia. }
+  split; [congruence|]. split; [exact AP|]. intros x. cbn [forallb] in A, AP. apply andb_true_iff in A as [A1 _]. apply andb_true_iff in AP as [P1 _].
+  apply word_start; [exact P1|destruct (N.eqb_spec (upper c) 73); [discriminate|assumption]|].
+  unfold pic_char in A1. unfold s_mem, existsb in *. lia.
+Qed.
+
+Lemma tok_picture sp p rest : spell_ok sp -> pic_ok p = true -> blank_tail rest ->
+  token_at (print_clause (CPicture p) sp ++ rest) = Some (Tok 8 (gmap (bindings (CPicture p) sp)), rest).
+Proof.
+  intros S P B. destruct (pic_ok_parts p P) as (P0 & PA & PW). destruct (PW rest) as [Np Lp].
+  cbn [print_clause bindings gmap map fst snd]. assoc. rewrite token_at_unfold.
+  pose proof (@is_then_printed sp (chb sp 1) nonws1 p rest (p, rest) S Np Lp (nonws1_word p rest P0 PA B)) as IT.
+  pose proof (is_then_nsp sp (chb sp 1) p rest Np) as NI.
+  pose proof (plus_bt_sep (sep sp 0) _ (is_then true nonws1) (p, rest) (sep_sepstr sp 0 S) NI IT) as PB.
+  destruct (pic_word_cases (chN sp 0)) as [-> | ->]; unfold kw at 1.
+  - unfold K_PIC. skip_alts. apply try_alts_yes. cbn [alt]. unfold alt_picture, pic_words, pic_is_opt. cbn [first_some].
+    kwlit. rewrite PB. reflexivity.
+  - unfold K_PICTURE. skip_alts. apply try_alts_yes. cbn [alt]. unfold alt_picture, pic_words, pic_is_opt. cbn [first_some].
+    rewrite (lit_shorter [80; 73; 67] [80; 73; 67; 84; 85; 82; 69]) by reflexivity. cbn [length skipn].
+    rewrite cased_cons. cbn [app]. rewrite plus_bt_fail by (apply name_char_not_sp; apply kwc_cased_name; reflexivity).
+    kwlit. rewrite PB. reflexivity.
+Qed.
+
+(* quoted literals *)
+Definition noq (s : list N) : Prop := forallb (fun c => negb (s_mem c [39; 34])) s = true.
+
+Lemma last_q_none q l : forallb (fun c => negb (c =? q)) l = true -> last_q q l = None.
+Proof.
+  induction l as [|c l IH]; [reflexivity|]. cbn [forallb last_q]. intros H. apply andb_true_iff in H as [H1 H2].
+  rewrite (IH H2). destruct (c =? q); [discriminate|reflexivity].
+Qed.
+
+Lemma last_q_app q body l : last_q q l = None -> last_q q (body ++ q :: l) = Some (S (length body)).
+Proof.
+  intros H. induction body as [|c body IH]; cbn [app last_q length].
+  - rewrite H, N.eqb_refl. reflexivity.
+  - rewrite IH. reflexivity.
+Qed.
+
+Lemma span_app_all p a r : forallb p a = true -> span p (a ++ r) = (a ++ fst (span p r), snd (span p r)).
+Proof.
+  intros A. induction a as [|c a IH]; cbn [app]; [destruct (span p r); reflexivity|].
+  cbn [forallb] in A. apply andb_true_iff in A as [A1 A2]. cbn [span]. rewrite A1, (IH A2). reflexivity.
+Qed.
+
+Lemma forallb_span_fst {p q : N -> bool} l : forallb q l = true -> forallb q (fst (span p l)) = true.
+Proof.
+  induction l as [|c l IH]; [reflexivity|]. cbn [forallb span]. intros H. apply andb_true_iff in H as [H1 H2].
+  destruct (p c); [|reflexivity]. destruct (span p l) eqn:E. cbn [fst forallb] in *. rewrite H1, (IH H2). reflexivity.
+Qed.
+
+Lemma quoted_printed q body rest : s_mem q [39; 34] = true -> forallb (fun c => negb (c =? 10)) body = true -> noq rest ->
+  quoted q ((q :: body ++ [q]) ++ rest) = Some (q :: body ++ [q], rest).
+Proof.
+  intros Q B NQ. cbn [app]. assoc. cbn [app quoted]. rewrite N.eqb_refl.
+  assert (Qn : not_nl q = true) by (unfold not_nl, s_mem, existsb in *; lia).
+  rewrite (span_app_all not_nl body (q :: rest)) by exact B. cbn [fst span]. rewrite Qn.
+  destruct (span not_nl rest) as [l1 l2] eqn:E. cbn [fst].
+  assert (L1 : last_q q l1 = None).
+  { apply last_q_none. pose proof (@forallb_span_fst not_nl (fun c => negb (s_mem c [39; 34])) rest NQ) as F. rewrite E in F. cbn [fst] in F.
+    clear E. induction l1 as [|c l IH]; [reflexivity|]. cbn [forallb] in *. apply andb_true_iff in F as [F1 F2]. rewrite (IH F2), andb_true_r.
+    unfold s_mem, existsb in *. lia. }
+  rewrite (last_q_app q body l1 L1).
+  assert (E1 : firstn (S (length body)) (body ++ q :: rest) = body ++ [q]).
+  { change (q :: rest) with ([q] ++ rest). rewrite app_assoc. replace (S (length body)) with (length (body ++ [q])) by (rewrite app_length; cbn; lia).
+    rewrite firstn_app, Nat.sub_diag, firstn_all. cbn [firstn]. apply app_nil_r. }
+  assert (E2 : skipn (S (length body)) (body ++ q :: rest) = rest).
+  { change (q :: rest) with ([q] ++ rest). rewrite app_assoc. replace (S (length body)) with (length (body ++ [q])) by (rewrite app_length; cbn; lia).
+    rewrite skipn_app, Nat.sub_diag, skipn_all. reflexivity. }
+  rewrite E1, E2. reflexivity.
+Qed.
+
+Lemma quoted_ok_shape v : quoted_ok v = true ->
+  exists q body, v = q :: body ++ [q] /\ s_mem q [39; 34] = true /\ forallb (fun c => negb (c =? 10)) body = true.
+Proof.
+  destruct v as [|q t]; [discriminate|]. cbn [quoted_ok]. intros H. apply andb_true_iff in H as [Q H].
+  destruct (rev t) as [|q' rb] eqn:E; [discriminate|]. apply andb_true_iff in H as [H1 H2]. apply N.eqb_eq in H1. subst q'.
+  exists q, (rev rb). split; [|split; [exact Q|]].
+  - f_equal. rewrite <- (rev_involutive t), E. reflexivity.
+  - rewrite forallb_forall in *. intros x I. apply H2. apply in_rev. exact I.
+Qed.
+
+Lemma value_body_printed v rest : value_ok v = true -> (if is_quoted v then noq rest else blank_tail rest) ->
+  value_body (v ++ rest) = Some (v, rest) /\ nsp (v ++ rest) /\ lit W_IS (v ++ rest) = None.
+Proof.
+  unfold value_ok. destruct (is_quoted v) eqn:IQ; intros V T.
+  - destruct (quoted_ok_shape v V) as (q & body & -> & Q & B).
+    assert (q = 39 \/ q = 34) as [-> | ->] by (unfold s_mem, existsb in Q; lia).
+    + split; [unfold value_body; rewrite quoted_printed by assumption; reflexivity|].
+      split; [cbn [app]; apply nsp_cons; vm_compute; reflexivity|cbn [app]; apply lit_first_ne; vm_compute; discriminate].
+    + split; [unfold value_body; rewrite quoted_printed by assumption; reflexivity|].
+      split; [cbn [app]; apply nsp_cons; vm_compute; reflexivity|cbn [app]; apply lit_first_ne; vm_compute; discriminate].
+  - destruct v as [|c t]; [discriminate|]. cbn [word_ok] in V. apply andb_true_iff in V as [U A].
+    assert (AP : forallb printable_char (c :: t) = true).
+    { clear U IQ. induction (c :: t) as [|d l IH]; [reflexivity|]. cbn [forallb] in *. apply andb_true_iff in A as [A1 A2].
+      rewrite (IH A2), andb_true_r. unfold word_char in A1. unfold printable_char. lia. }
+    cbn [forallb] in A, AP. apply andb_true_iff in A as [A1 _]. pose proof AP as AP'. apply andb_true_iff in AP as [P1 _].
+    assert (NQ : s_mem c [39; 34] = false) by exact IQ.
+    split.
+    + unfold value_body, quoted. cbn [app]. unfold s_mem, existsb in NQ.
+      destruct (N.eqb_spec c 39); [lia|]. destruct (N.eqb_spec c 34); [lia|]. apply (nonws1_word (c :: t) rest); [congruence|exact AP'|exact T].
+    + apply word_start; [exact P1|destruct (N.eqb_spec (upper c) 73); [discriminate|assumption]|].
+      unfold word_char in A1. unfold s_mem, existsb in *. lia.
+Qed.
+
+Lemma tok_value sp v rest : spell_ok sp -> value_ok v = true -> (if is_quoted v then noq rest else blank_tail rest) ->
+  token_at (print_clause (CValue v) sp ++ rest) = Some (Tok 12 (gmap (bindings (CValue v) sp)), rest).
+Proof.
+  intros S V T. destruct (value_body_printed v rest V T) as (VB & Nv & Lv).
+  cbn [print_clause bindings gmap map fst snd]. assoc. rewrite token_at_unfold.
+  pose proof (@is_then_printed sp (chb sp 0) value_body v rest (v, rest) S Nv Lv VB) as IT.
+  pose proof (is_then_nsp sp (chb sp 0) v rest Nv) as NI.
+  pose proof (plus_bt_sep (sep sp 0) _ (is_then true value_body) (v, rest) (sep_sepstr sp 0 S) NI IT) as PB.
+  unfold kw at 1, K_VALUE. skip_alts. apply try_alts_yes. cbn [alt]. unfold alt_value, value_is_opt. kwlit. rewrite PB. reflexivity.
+Qed.
+
+(* ---- usage words: the ordered alternation with the lookahead ---- *)
+Fixpoint sim (ws : list str) (w : str) : bool :=
+  match ws with
+  | [] => false
+  | u :: r => if SR.Spec.Clauses.str_eqb u w then true
+              else if prefixb u w && negb (nth (length u) w 0 =? 45) then false
+              else sim r w
+  end.
+
+Lemma spec_str_eqb_eq a b : SR.Spec.Clauses.str_eqb a b = true -> a = b.
+Proof.
+  revert b. induction a as [|x a IH]; intros [|y b] H; try discriminate; [reflexivity|].
+  cbn [SR.Spec.Clauses.str_eqb] in H. apply andb_true_iff in H as [H1 H2]. apply N.eqb_eq in H1. subst. f_equal. apply IH. exact H2.
+Qed.
+
+Lemma spec_str_eqb_refl a : SR.Spec.Clauses.str_eqb a a = true.
+Proof. induction a as [|x a IH]; [reflexivity|]. cbn [SR.Spec.Clauses.str_eqb]. rewrite N.eqb_refl, IH. reflexivity. Qed.
+
+Lemma prefixb_split : forall u w, prefixb u w = true -> (u = w) \/ exists y t, skipn (length u) w = y :: t /\ nth (length u) w 0 = y.
+Proof.
+  induction u as [|x u IH]; intros w P.
+  - destruct w as [|y t]; [left; reflexivity|right; exists y, t; split; reflexivity].
+  - destruct w as [|y t]; [discriminate|]. cbn [prefixb] in P. apply andb_true_iff in P as [E P]. apply N.eqb_eq in E. subst y.
+    destruct (IH t P) as [->|(y & t' & E1 & E2)]; [left; reflexivity|right; exists y, t'; split; assumption].
+Qed.
+
+Lemma not_prefix : forall u w, prefixb u w = false -> mismatch u w = true \/ (prefixb w u = true /\ (length w < length u)%nat).
+Proof.
+  induction u as [|x u IH]; intros w P; [discriminate|].
+  destruct w as [|y t]; [right; split; [reflexivity|cbn; lia]|].
+  cbn [prefixb mismatch] in *. destruct (y =? x) eqn:E; [|left; reflexivity].
+  cbn [andb] in P. destruct (IH t P) as [M|[Q L]]; [left; exact M|right].
+  apply N.eqb_eq in E. subst. rewrite N.eqb_refl. cbn [andb length]. split; [exact Q|lia].
+Qed.
+
+Lemma lit_not_prefix u w m rest : kword u = true -> kword w = true -> follow rest -> prefixb u w = false -> lit u (cased m w ++ rest) = None.
+Proof.
+  intros Ku Kw F P. destruct (not_prefix u w P) as [M|[Q L]]; [apply lit_mismatch; assumption|apply lit_longer; assumption].
+Qed.
+
+Lemma guard_follow rest : follow rest -> guard_ok rest = true.
+Proof.
+  intros [->|(c & t & -> & S)]; [reflexivity|]. unfold guard_ok, usage_guard. destruct (sepc_cases c S) as [->|[->|[->|[->|[->| ->]]]]]; reflexivity.
+Qed.
+
+Lemma usage_first : forall ws m w rest, kword w = true -> forallb kword ws = true -> follow rest -> sim ws w = true ->
+  first_some (fun u => match lit u (cased m w ++ rest) with
+                       | Some r1 => if guard_ok r1 then Some ([(KUsage, firstn (length u) (cased m w ++ rest))], r1) else None
+                       | None => None
+                       end) ws = Some ([(KUsage, cased m w)], rest).
+Proof.
+  induction ws as [|u ws IH]; intros m w rest K A F Sm; [discriminate|].
+  cbn [forallb] in A. apply andb_true_iff in A as [Ku A]. cbn [sim first_some] in *.
+  destruct (SR.Spec.Clauses.str_eqb u w) eqn:E.
+  - apply spec_str_eqb_eq in E. subst u. rewrite lit_cased by exact K. rewrite (guard_follow rest F), firstn_cased. reflexivity.
+  - destruct (prefixb u w) eqn:P.
+    + destruct (prefixb_split u w P) as [->|(y & t & E1 & E2)]; [rewrite spec_str_eqb_refl in E; discriminate|].
+      rewrite E2 in Sm. cbn [andb] in Sm. destruct (y =? 45) eqn:Y; [|discriminate]. apply N.eqb_eq in Y. subst y.
+      rewrite (lit_shorter u w m rest K P), E1. rewrite cased_cons. cbn [app].
+      replace (if hd false (skipn (length u) m) then lower 45 else 45) with 45 by (destruct (hd false (skipn (length u) m)); reflexivity).
+      unfold guard_ok at 1, usage_guard. cbn [N.eqb Pos.eqb negb]. apply IH; assumption.
+    + rewrite (lit_not_prefix u w m rest Ku K F P). cbn [andb] in Sm. apply IH; assumption.
+Qed.
+
+Definition all_usage_words : list str := concat usage_table.
+
+Lemma usage_word_in fam i : In (usage_word fam i) all_usage_words.
+Proof.
+  unfold usage_word, usage_rep, all_usage_words.
+  assert (I : In (usage_family fam) usage_table).
+  { unfold usage_family. destruct (nth_in_or_default (N.to_nat fam) usage_table [K_DISPLAY]) as [I|E]; [exact I|rewrite E; left; reflexivity]. }
+  apply in_concat. exists (usage_family fam). split; [exact I|].
+  destruct (nth_in_or_default (N.to_nat i) (usage_family fam) (hd K_DISPLAY (usage_family fam))) as [J|E]; [exact J|rewrite E].
+  unfold usage_table in I. cbn [In] in I. repeat destruct I as [I|I]; try contradiction; rewrite <- I; left; reflexivity.
+Qed.
+
+Lemma usage_words_checked :
+  forallb (fun w => kword w && sim usage_words w && mismatch W_USAGE w && mismatch W_IS w && negb (match w with [] => true | _ => false end))
+          all_usage_words = true.
+Proof. vm_compute. reflexivity. Qed.
+
+Lemma usage_word_facts w : In w all_usage_words ->
+  kword w = true /\ sim usage_words w = true /\ mismatch W_USAGE w = true /\ mismatch W_IS w = true /\ w <> [].
+Proof.
+  intros I. pose proof usage_words_checked as C. rewrite forallb_forall in C. specialize (C w I).
+  repeat (apply andb_true_iff in C as [C ?]). repeat split; try assumption. destruct w; [discriminate|congruence].
+Qed.
+
+Lemma usage_at_printed m w rest : In w all_usage_words -> follow rest -> usage_at (cased m w ++ rest) = Some ([(KUsage, cased m w)], rest).
+Proof.
+  intros I F. destruct (usage_word_facts w I) as (K & Sm & _). unfold usage_at. apply usage_first; [exact K| |exact F|exact Sm].
+  vm_compute. reflexivity.
+Qed.
+
+Lemma alt_blank_mismatch m w r : kword w = true -> mismatch W_BLANK w = true -> alt 2 (cased m w ++ r) = ANo.
+Proof. intros K M. cbn [alt]. unfold alt_blank. rewrite (word_sp_mismatch W_BLANK w m r K M). reflexivity. Qed.
+
+Lemma alt_picture_mismatch m w r : kword w = true -> forallb (fun u => mismatch u w) pic_words = true -> alt 8 (cased m w ++ r) = ANo.
+Proof.
+  intros K M. cbn [alt]. unfold alt_picture. unfold pic_words in *. cbn [forallb first_some] in *.
+  apply andb_true_iff in M as [M1 M]. apply andb_true_iff in M as [M2 _].
+  rewrite (lit_mismatch _ w m r K M1), (lit_mismatch _ w m r K M2). reflexivity.
+Qed.
+
+Lemma usage_bare_alts m w rest : In w all_usage_words ->
+  try_alts [0; 1; 2; 3; 4; 5; 6; 7; 8; 9; 10; 11; 12; 13; 14] (cased m w ++ rest) = try_alts [11; 12; 13; 14] (cased m w ++ rest).
+Proof.
+  intros I. unfold all_usage_words, usage_table in I. cbn [concat app In] in I.
+  repeat destruct I as [I|I]; try contradiction; subst w;
+    match goal with |- context [cased m ?W] => let W' := eval cbv in W in change W with W' end;
+    skip_alts; try (rewrite try_alts_no by (apply alt_blank_mismatch; reflexivity)); skip_alts;
+    try (rewrite try_alts_no by (apply alt_picture_mismatch; reflexivity)); skip_alts; reflexivity.
+Qed.
+
+Lemma tok_usage sp fam rest : spell_ok sp -> follow rest ->
+  token_at (print_clause (CUsage fam) sp ++ rest) = Some (Tok 11 (gmap (bindings (CUsage fam) sp)), rest).
+Proof.
+  intros S F. cbn [print_clause bindings gmap map fst snd]. assoc. rewrite token_at_unfold.
+  set (w := usage_word fam (chN sp 1)). pose proof (usage_word_in fam (chN sp 1)) as I. fold w in I.
+  destruct (usage_word_facts w I) as (K & _ & MU & MI & N0).
+  pose proof (usage_at_printed (nth 2 (masks sp) []) w rest I F) as U. fold (kw sp 2 w) in U.
+  assert (NW : nsp (kw sp 2 w ++ rest)) by (apply nsp_cased; assumption).
+  assert (I1 : opt_word_sp true W_IS (kw sp 2 w ++ rest) = [kw sp 2 w ++ rest]).
+  { unfold opt_word_sp, kw. rewrite (word_sp_mismatch W_IS w _ rest K MI). reflexivity. }
+  unfold intro. destruct (chN sp 0) as [|[p|p|]]; cbn [app]; assoc.
+  - unfold kw at 1. rewrite usage_bare_alts by exact I. apply try_alts_yes. fold (kw sp 2 w).
+    cbn [alt]. unfold alt_usage, usage_word_opt, usage_is_opt, prefix2.
+    unfold opt_word_sp at 2. unfold kw at 1. rewrite (word_sp_mismatch W_USAGE w _ rest K MU). fold (kw sp 2 w).
+    cbn [flat_map]. rewrite I1. cbn [app first_some]. rewrite U. reflexivity.
+  - unfold kw at 1, K_USAGE. skip_alts. apply try_alts_yes. cbn [alt]. unfold alt_usage, usage_word_opt, usage_is_opt, prefix2.
+    change (cased (nth 0 (masks sp) []) [85; 83; 65; 71; 69]) with (kw sp 0 W_USAGE).
+    unfold opt_word_sp at 2. rewrite word_sp_printed; [|exact S|reflexivity|apply nsp_cased; [discriminate|reflexivity]].
+    cbn [flat_map]. unfold opt_word_sp at 1. change K_IS with W_IS. rewrite word_sp_printed; [|exact S|reflexivity|exact NW].
+    cbn [app first_some]. rewrite U. reflexivity.
+  - unfold kw at 1, K_USAGE. skip_alts. apply try_alts_yes. cbn [alt]. unfold alt_usage, usage_word_opt, usage_is_opt, prefix2.
+    change (cased (nth 0 (masks sp) []) [85; 83; 65; 71; 69]) with (kw sp 0 W_USAGE).
+    unfold opt_word_sp at 2. rewrite word_sp_printed; [|exact S|reflexivity|apply nsp_cased; [discriminate|reflexivity]].
+    cbn [flat_map]. unfold opt_word_sp at 1. change K_IS with W_IS. rewrite word_sp_printed; [|exact S|reflexivity|exact NW].
+    cbn [app first_some]. rewrite U. reflexivity.
+  - unfold kw at 1, K_USAGE. skip_alts. apply try_alts_yes. cbn [alt]. unfold alt_usage, usage_word_opt, usage_is_opt, prefix2.
+    change (cased (nth 0 (masks sp) []) [85; 83; 65; 71; 69]) with (kw sp 0 W_USAGE).
+    unfold opt_word_sp at 2. rewrite word_sp_printed; [|exact S|reflexivity|exact NW].
+    cbn [flat_map]. rewrite I1. cbn [app first_some]. rewrite U. reflexivity.
+Qed.
+
+(* ---- the data name: every keyword alternative fails on it ---- *)
+Lemma ci_prefix_prefixb : forall g u n, prefixb g u = true -> ci_prefix u n = true -> ci_prefix g n = true.
+Proof.
+  induction g as [|x g IH]; intros u n P C; [reflexivity|].
+  destruct u as [|y u]; [discriminate|]. cbn [prefixb] in P. apply andb_true_iff in P as [E P]. apply N.eqb_eq in E. subst y.
+  destruct n as [|c n]; [discriminate|]. cbn [ci_prefix] in *. apply andb_true_iff in C as [C1 C2]. rewrite C1. apply (IH u n P C2).
+Qed.
+
+Lemma lit_glued_none u n rest : kword u = true -> existsb (fun g => prefixb g u) glued_words = true -> name_ok n = true -> follow rest ->
+  lit u (n ++ rest) = None.
+Proof.
+  intros K G N F. destruct (name_ok_parts n N) as (_ & A & _ & KP).
+  destruct (lit u (n ++ rest)) as [r|] eqn:L; [|reflexivity].
+  destruct (lit_name_split u n rest r K A F L) as (P & _ & _).
+  apply existsb_exists in G as (g & I & Pg).
+  assert (keyword_prefixed n = true); [|congruence].
+  unfold keyword_prefixed. apply existsb_exists. exists g. split; [exact I|apply (ci_prefix_prefixb g u n Pg P)].
+Qed.
+
+Lemma first_some_none {A B} (f : A -> option B) l : (forall x, In x l -> f x = None) -> first_some f l = None.
+Proof.
+  induction l as [|x l IH]; intros H; [reflexivity|]. cbn [first_some]. rewrite (H x (or_introl eq_refl)).
+  apply IH. intros y I. apply H. right. exact I.
+Qed.
+
+Lemma lit_name_then_bt {R} w n rest (k : list N -> option R) : kword w = true -> In w reserved_words -> name_ok n = true -> follow rest ->
+  match lit w (n ++ rest) with Some r => plus_bt is_sp r k | None => None end = None.
+Proof.
+  intros K I N F. destruct (lit w (n ++ rest)) as [r|] eqn:L; [|reflexivity].
+  destruct (lit_name_goes_on w n rest r K I N F L) as (c & t & -> & C). apply plus_bt_fail. apply name_char_not_sp. exact C.
+Qed.
+
+Lemma usage_words_glued : forallb (fun u => kword u && existsb (fun g => prefixb g u) glued_words) usage_words = true.
+Proof. vm_compute. reflexivity. Qed.
+
+Lemma name_alts n rest : name_ok n = true -> follow rest -> forall id, In id keyword_alts -> alt id (n ++ rest) = ANo.
+Proof.
+  intros N F id C. destruct (name_ok_parts n N) as (N0 & A & _ & _).
+  assert (WS : forall w, kword w = true -> In w reserved_words -> word_sp w (n ++ rest) = None)
+    by (intros; apply word_sp_name_none; assumption).
+  assert (P2 : forall w1 w2, kword w1 = true -> In w1 reserved_words -> kword w2 = true -> In w2 reserved_words ->
+               prefix2 true w1 true w2 (n ++ rest) = [n ++ rest]).
+  { intros w1 w2 K1 I1 K2 I2. unfold prefix2, opt_word_sp. rewrite (WS w1 K1 I1). cbn [flat_map app]. rewrite (WS w2 K2 I2). reflexivity. }
+  unfold keyword_alts in C. cbn [In] in C.
+  repeat destruct C as [C|C]; try contradiction; subst id; cbn [alt].
+  - unfold alt_space, sp1. destruct n as [|c n]; [congruence|]. cbn [forallb] in A. apply andb_true_iff in A as [A _].
+    cbn [app]. rewrite (plus1_fail is_sp c _ (name_char_not_sp c A)). reflexivity.
+  - unfold alt_redefines. rewrite WS by (reflexivity || reserved). reflexivity.
+  - unfold alt_blank. rewrite WS by (reflexivity || reserved). reflexivity.
+  - unfold alt_word. rewrite lit_glued_none by (reflexivity || assumption). reflexivity.
+  - unfold alt_word. rewrite lit_glued_none by (reflexivity || assumption). reflexivity.
+  - unfold alt_justified, just_words. cbn [first_some]. rewrite !WS by (reflexivity || reserved). reflexivity.
+  - unfold alt_odo. rewrite WS by (reflexivity || reserved). reflexivity.
+  - unfold alt_occurs. rewrite WS by (reflexivity || reserved). reflexivity.
+  - unfold alt_picture, pic_words. cbn [first_some].
+    rewrite !lit_name_then_bt by (reflexivity || reserved || assumption). reflexivity.
+  - unfold alt_sign, sign_word_opt, sign_is_opt. rewrite P2 by (reflexivity || reserved). cbn [first_some].
+    unfold sign_at. rewrite first_some_none; [reflexivity|]. intros w I. cbn [In] in I.
+    assert (K : kword w = true /\ In w reserved_words) by (destruct I as [<-|[<-|[]]]; (split; [reflexivity|reserved])).
+    destruct K as [K Ir]. destruct (lit w (n ++ rest)) as [r|] eqn:L; [|reflexivity].
+    destruct (lit_name_goes_on w n rest r K Ir N F L) as (c & t & -> & Cc).
+    unfold sign_sep_end, sp_word, sp1. rewrite (plus1_fail is_sp c t (name_char_not_sp c Cc)). reflexivity.
+  - unfold alt_sync. rewrite first_some_none; [reflexivity|]. intros w I. unfold sync_words in I. cbn [In] in I.
+    destruct I as [<-|[<-|[]]]; apply lit_glued_none; (reflexivity || assumption).
+  - unfold alt_usage, usage_word_opt, usage_is_opt. rewrite P2 by (reflexivity || reserved). cbn [first_some].
+    unfold usage_at. rewrite first_some_none; [reflexivity|]. intros u I.
+    pose proof usage_words_glued as G. rewrite forallb_forall in G. specialize (G u I). apply andb_true_iff in G as [Ku G].
+    rewrite (lit_glued_none u n rest Ku G N F). reflexivity.
+  - unfold alt_value. destruct (lit W_VALUE (n ++ rest)) as [r|] eqn:L; [|reflexivity].
+    destruct (lit_name_goes_on W_VALUE n rest r eq_refl ltac:(reserved) N F L) as (c & t & -> & Cc).
+    rewrite plus_bt_fail by (apply name_char_not_sp; exact Cc). reflexivity.
+  - unfold alt_filler. rewrite lit_glued_none by (reflexivity || assumption). reflexivity.
+Qed.
+
+Lemma tok_name sp n rest : name_ok n = true -> follow rest ->
+  token_at (print_clause (CName n) sp ++ rest) = Some (Tok 14 (gmap (bindings (CName n) sp)), rest).
+Proof.
+  intros N F. destruct (name_ok_parts n N) as (N0 & A & _ & _). cbn [print_clause bindings gmap map fst snd]. rewrite token_at_unfold.
+  pose proof (name_alts n rest N F) as H.
+  repeat (rewrite try_alts_no by (apply H; unfold keyword_alts; cbn [In]; tauto)).
+  apply try_alts_yes. cbn [alt]. unfold alt_name. rewrite name1_app by assumption. reflexivity.
+Qed.
+
+(* ================================================================ 4. entries *)
+Lemma scan_skip : forall w r, scan (length w) (w ++ r) = scan 0 r.
+Proof. induction w as [|c w IH]; intros r; [reflexivity|]. cbn [length app scan]. apply IH. Qed.
+
+Lemma scan_tok w rest i : w <> [] -> token_at (w ++ rest) = Some (i, rest) -> scan 0 (w ++ rest) = i :: scan 0 rest.
+Proof.
+  intros N T. destruct w as [|c w]; [congruence|]. cbn [app] in *. cbn [scan]. rewrite T. f_equal.
+  rewrite app_length. replace (length w + length rest - length rest)%nat with (length w) by lia. apply scan_skip.
+Qed.
+
+Lemma scan_sep s r : sepstr s -> nsp r -> scan 0 (s ++ r) = Tok 0 [] :: scan 0 r.
+Proof.
+  intros S Rn. apply scan_tok; [apply S|]. rewrite token_at_unfold. apply try_alts_yes. cbn [alt]. unfold alt_space.
+  rewrite (sp1_sep s r S Rn). reflexivity.
+Qed.
+
+(* ---- no quote characters in what is printed outside a VALUE clause ---- *)
+Definition plainc (c : N) : bool := negb (s_mem c [39; 34]).
+
+Lemma noq_app a b : noq a -> noq b -> noq (a ++ b).
+Proof. unfold noq. intros A B. rewrite forallb_app, A, B. reflexivity. Qed.
+
+Lemma noq_of (p : N -> bool) s : (forall c, p c = true -> plainc c = true) -> forallb p s = true -> noq s.
+Proof.
+  intros H A. unfold noq. induction s as [|c s IH]; [reflexivity|]. cbn [forallb] in *. apply andb_true_iff in A as [A1 A2].
+  fold (plainc c). rewrite (H c A1), (IH A2). reflexivity.
+Qed.
+
+Lemma name_char_plain c : name_char c = true -> plainc c = true.
+Proof. unfold name_char, is_upper_letter, is_lower_letter, is_digit, plainc, s_mem, existsb. lia. Qed.
+
+Lemma sepc_plain c : sepc c = true -> plainc c = true.
+Proof. intros H. destruct (sepc_cases c H) as [->|[->|[->|[->|[->| ->]]]]]; reflexivity. Qed.
+
+Lemma noq_name n : forallb name_char n = true -> noq n.
+Proof. apply noq_of. apply name_char_plain. Qed.
+
+Lemma noq_kw sp i w : kword w = true -> noq (kw sp i w).
+Proof. intros K. apply noq_name. apply cased_all_name. exact K. Qed.
+
+Lemma noq_sepstr s : forallb sepc s = true -> noq s.
+Proof. apply noq_of. apply sepc_plain. Qed.
+
+Lemma noq_sep sp i : spell_ok sp -> noq (sep sp i).
+Proof. intros S. apply noq_sepstr. apply (sep_sepstr sp i S). Qed.
+
+Lemma noq_nil : noq [].
+Proof. reflexivity. Qed.
+
+Lemma noq_opt b s : noq s -> noq (opt b s).
+Proof. destruct b; [trivial|intros; apply noq_nil]. Qed.
+
+Lemma noq_pic p : pic_ok p = true -> noq p.
+Proof.
+  destruct p as [|c t]; [discriminate|]. cbn [pic_ok]. intros H. apply andb_true_iff in H as [_ A].
+  revert A. apply noq_of. intros d. unfold pic_char, plainc, s_mem, existsb. lia.
+Qed.
+
+Lemma usage_word_kword fam i : kword (usage_word fam i) = true.
+Proof. apply (usage_word_facts _ (usage_word_in fam i)). Qed.
+
+Ltac noq_tac S :=
+  repeat first
+    [ apply noq_nil
+    | apply noq_app
+    | apply noq_opt
+    | apply (noq_sep _ _ S)
+    | apply noq_kw; first [reflexivity | apply usage_word_kword]
+    | match goal with |- noq (kw _ _ (just_word ?i)) => destruct (just_word_cases i) as [-> | ->] end
+    | match goal with |- noq (kw _ _ (sync_word ?i)) => destruct (sync_word_cases i) as [-> | ->] end
+    | match goal with |- noq (kw _ _ (pic_word ?i)) => destruct (pic_word_cases i) as [-> | ->] end
+    | match goal with |- noq (kw _ _ (sign_word ?b)) => destruct b; cbn [sign_word] end
+    | match goal with |- noq (kw _ _ (side_word ?b)) => unfold side_word; destruct (b =? 1) end ].
+
+Lemma clause_ok_spell c sp : clause_ok c sp = true -> spell_ok sp.
+Proof. unfold clause_ok, spell_ok. intros H. apply andb_true_iff in H as [H _]. exact H. Qed.
+
+Lemma noq_clause c sp : clause_ok c sp = true -> kind c <> 5 -> noq (print_clause c sp).
+Proof.
+  intros C K. pose proof (clause_ok_spell c sp C) as S. unfold clause_ok in C. apply andb_true_iff in C as [_ C].
+  destruct c; cbn [print_clause kind] in *; try congruence.
+  - apply noq_name. apply (name_ok_parts _ C).
+  - noq_tac S.
+  - noq_tac S. apply noq_name. apply (name_ok_parts _ C).
+  - apply andb_true_iff in C as [D I]. destruct ix; [discriminate|]. cbn [print_ix]. noq_tac S. apply noq_name. apply (digits_name _ D).
+  - apply andb_true_iff in C as [C I]. apply andb_true_iff in C as [C Nd]. apply andb_true_iff in C as [Dm Dx].
+    destruct ix; [discriminate|]. cbn [print_ix]. noq_tac S.
+    + destruct mn as [m|]; noq_tac S. apply noq_name. apply (digits_name _ Dm).
+    + apply noq_name. apply (digits_name _ Dx).
+    + apply noq_name. apply (name_ok_parts _ Nd).
+  - noq_tac S. apply noq_pic. exact C.
+  - unfold intro. destruct (chN sp 0) as [|[?|?|]]; noq_tac S.
+  - noq_tac S. unfold zero_word. destruct (N.to_nat (chN sp 1)) as [|[|[|?]]]; cbn [nth]; noq_tac S; destruct n; noq_tac S.
+  - noq_tac S.
+  - unfold side_text. noq_tac S.
+  - unfold intro, separate_text. destruct (chN sp 0) as [|[?|?|]]; noq_tac S.
+  - noq_tac S.
+  - noq_tac S.
+Qed.
+
+(* ---- the first word of a clause that is not the data name: not a separator, none of the lookahead words ---- *)
+Definition head_ok (w : str) : bool :=
+  kword w && negb (match w with [] => true | _ => false end) && forallb (fun u => mismatch u w) lookahead_words.
+
+Lemma head_kw sp i w x : head_ok w = true -> nsp (kw sp i w ++ x) /\ clean_next (kw sp i w ++ x) /\ kw sp i w ++ x <> [].
+Proof.
+  unfold head_ok. intros H. apply andb_true_iff in H as [H M]. apply andb_true_iff in H as [K N].
+  assert (w <> []) by (destruct w; [discriminate|congruence]).
+  split; [apply nsp_cased; assumption|]. split; [apply clean_next_kw; assumption|].
+  unfold kw. destruct w; [congruence|]. rewrite cased_cons. discriminate.
+Qed.
+
+Lemma usage_heads : forallb head_ok all_usage_words = true.
+Proof. vm_compute. reflexivity. Qed.
+
+Definition starts_ok (t : list N) : Prop := nsp t /\ clean_next t /\ t <> [].
+
+Lemma clause_head c sp x : is_name_clause c = false -> starts_ok (print_clause c sp ++ x).
+Proof.
+  intros Nn. unfold starts_ok. destruct c; cbn [is_name_clause print_clause] in *; try discriminate; assoc.
+  - apply head_kw. reflexivity.
+  - apply head_kw. reflexivity.
+  - apply head_kw. reflexivity.
+  - destruct (pic_word_cases (chN sp 0)) as [-> | ->]; apply head_kw; reflexivity.
+  - unfold intro. destruct (chN sp 0) as [|[?|?|]]; cbn [app]; assoc; try (apply head_kw; reflexivity).
+    apply head_kw. pose proof usage_heads as H. rewrite forallb_forall in H. apply H. apply usage_word_in.
+  - apply head_kw. reflexivity.
+  - apply head_kw. reflexivity.
+  - destruct (just_word_cases (chN sp 0)) as [-> | ->]; apply head_kw; reflexivity.
+  - destruct (sync_word_cases (chN sp 0)) as [-> | ->]; apply head_kw; reflexivity.
+  - unfold intro. destruct (chN sp 0) as [|[?|?|]]; cbn [app]; assoc; try (apply head_kw; reflexivity).
+    destruct leading; apply head_kw; reflexivity.
+  - apply head_kw. reflexivity.
+  - apply head_kw. reflexivity.
+Qed.
+
+Lemma items_head c cs sps x : existsb is_name_clause (c :: cs) = false -> starts_ok (print_items (c :: cs) sps ++ x).
+Proof.
+  intros H. cbn [existsb] in H. apply orb_false_iff in H as [H _]. cbn [print_items]. assoc. apply clause_head. exact H.
+Qed.
+
+(* the model's groups of a whole printed entry *)
+Lemma gmap_app a b : gmap (a ++ b) = gmap a ++ gmap b.
+Proof. apply map_app. Qed.
+
+Lemma all_blank_cases a : all_blank a = true -> a = [] \/ (sepstr a /\ blank_tail a).
+Proof.
+  intros H. destruct a as [|c t]; [left; reflexivity|right]. split.
+  - split; [congruence|apply all_blank_sepc; exact H].
+  - right. exists c, t. split; [reflexivity|]. unfold all_blank in H. cbn [forallb] in H. apply andb_true_iff in H as [H _]. exact H.
+Qed.
+
+Lemma noq_items : forall cs sps, items_ok cs sps = true -> s_mem 5 (map kind cs) = false -> noq (print_items cs sps).
+Proof.
+  induction cs as [|c cs IH]; intros sps I K; [apply noq_nil|].
+  cbn [items_ok] in I. apply andb_true_iff in I as [I I4]. apply andb_true_iff in I as [I I3]. apply andb_true_iff in I as [I1 I2].
+  cbn [map s_mem existsb] in K. apply orb_false_iff in K as [K1 K2].
+  cbn [print_items]. apply noq_app; [apply noq_clause; [exact I1|intros E; rewrite E in K1; discriminate]|].
+  apply noq_app; [|apply IH; assumption].
+  unfold after_ok in I2. apply andb_true_iff in I2 as [I2 _]. apply noq_sepstr.
+  destruct cs; [apply all_blank_sepc; exact I2|apply (sep_ok_sepstr _ I2)].
+Qed.
+
+Lemma blank_tail_app a r : all_blank a = true -> (a = [] -> r = []) -> blank_tail (a ++ r).
+Proof.
+  intros A H. destruct a as [|c t]; [rewrite (H eq_refl); left; reflexivity|right]. exists c, (t ++ r). split; [reflexivity|].
+  unfold all_blank in A. cbn [forallb] in A. apply andb_true_iff in A as [A _]. exact A.
+Qed.
+
+Definition fuel_free (l : list item) : Prop := existsb is_fuel l = false.
+
+Lemma items_nonempty c cs sps : existsb is_name_clause (c :: cs) = false -> print_items (c :: cs) sps <> [].
+Proof.
+  intros H E. destruct (items_head c cs sps [] H) as (_ & _ & N). rewrite app_nil_r in N. apply N. exact E.
+Qed.
+
+Lemma items_scan : forall cs sps, nodup_N (map kind cs) = true -> items_ok cs sps = true ->
+  merged (scan 0 (print_items cs sps)) = gmap (all_bindings cs sps) /\ fuel_free (scan 0 (print_items cs sps)).
+Proof.
+  induction cs as [|c cs IH]; intros sps ND I; [split; reflexivity|].
+  cbn [items_ok] in I. apply andb_true_iff in I as [I I4]. apply andb_true_iff in I as [I I3]. apply andb_true_iff in I as [I1 I2].
+  cbn [map nodup_N] in ND. apply andb_true_iff in ND as [ND1 ND2]. apply negb_true_iff in ND1. apply negb_true_iff in I3.
+  destruct (IH (tl sps) ND2 I4) as [IHm IHf].
+  cbn [print_items all_bindings]. rewrite gmap_app.
+  remember (fst (hd sp_default sps)) as sp eqn:Hsp. remember (snd (hd sp_default sps)) as a eqn:Ha.
+  remember (print_items cs (tl sps)) as R eqn:HR.
+  pose proof (clause_ok_spell c sp I1) as S.
+  unfold after_ok in I2. apply andb_true_iff in I2 as [A1 A2].
+  (* what follows the clause *)
+  assert (RS : (cs = [] /\ R = []) \/ (cs <> [] /\ starts_ok R)).
+  { destruct cs as [|c' cs']; [left; split; [reflexivity|exact HR]|right]. split; [discriminate|].
+    rewrite HR, <- (app_nil_r (print_items _ _)). apply items_head. exact I3. }
+  assert (AR : (a = [] /\ R = []) \/ (sepstr a /\ nsp R /\ clean_next R)).
+  { destruct RS as [[Ec Er]|[Nc (H1 & H2 & _)]].
+    - subst cs. destruct (all_blank_cases a A1) as [Ea|[Sa _]]; [left; split; assumption|right].
+      split; [exact Sa|]. rewrite Er. split; [left; reflexivity|apply clean_next_nil].
+    - right. destruct cs; [congruence|]. split; [apply sep_ok_sepstr; exact A1|split; assumption]. }
+  assert (T : tail_ok (a ++ R)).
+  { destruct AR as [[Ea Er]|(Sa & Rn & Cn)]; [rewrite Ea, Er; left; reflexivity|].
+    right. exists a, R. split; [reflexivity|split; [exact Sa|split; [exact Rn|exact Cn]]]. }
+  (* the scan of separator and rest *)
+  assert (SC : merged (scan 0 (a ++ R)) = gmap (all_bindings cs (tl sps)) /\ fuel_free (scan 0 (a ++ R))).
+  { destruct AR as [[Ea Er]|(Sa & Rn & Cn)].
+    - rewrite Ea. cbn [app]. split; [exact IHm|exact IHf].
+    - rewrite (scan_sep a R Sa Rn). split; [exact IHm|exact IHf]. }
+  destruct SC as [SCm SCf].
+  (* the common case: the clause's token stops at its end *)
+  assert (COMMON : forall id, token_at (print_clause c sp ++ a ++ R) = Some (Tok id (gmap (bindings c sp)), a ++ R) ->
+            print_clause c sp <> [] ->
+            merged (scan 0 (print_clause c sp ++ a ++ R)) = gmap (bindings c sp) ++ gmap (all_bindings cs (tl sps))
+            /\ fuel_free (scan 0 (print_clause c sp ++ a ++ R))).
+  { intros id Tk Ne. rewrite (scan_tok _ _ _ Ne Tk). unfold merged in *. cbn [flat_map]. rewrite SCm. split; [reflexivity|].
+    unfold fuel_free in *. cbn [existsb is_fuel]. exact SCf. }
+  assert (KWNE : forall i w x, w <> [] -> kw sp i w ++ x <> []).
+  { intros i w x Nw. unfold kw. destruct w; [congruence|]. rewrite cased_cons. discriminate. }
+  unfold clause_ok in I1. apply andb_true_iff in I1 as [_ I1].
+  destruct c; cbn [kind] in *.
+  - (* data name *) apply (COMMON 14); [apply tok_name; [exact I1|apply tail_ok_follow; exact T]|].
+    cbn [print_clause]. apply (name_ok_parts _ I1).
+  - apply (COMMON 13); [apply tok_filler|cbn [print_clause]; rewrite <- (app_nil_r (kw _ _ _)); apply KWNE; discriminate].
+  - apply (COMMON 1); [apply tok_redefines; [exact S|exact I1|apply tail_ok_follow; exact T]|cbn [print_clause]; apply KWNE; discriminate].
+  - apply andb_true_iff in I1 as [D Ix]. destruct ix; [discriminate|].
+    apply (COMMON 7); [apply tok_occurs; assumption|cbn [print_clause]; apply KWNE; discriminate].
+  - apply andb_true_iff in I1 as [I1 Ix]. apply andb_true_iff in I1 as [I1 Nd]. apply andb_true_iff in I1 as [Dm Dx]. destruct ix; [discriminate|].
+    apply (COMMON 6); [apply tok_odo; assumption|cbn [print_clause]; apply KWNE; discriminate].
+  - (* picture: blanks follow *)
+    apply (COMMON 8); [apply tok_picture; [exact S|exact I1|]|cbn [print_clause]; destruct (pic_word_cases (chN sp 0)) as [-> | ->]; apply KWNE; discriminate].
+    apply blank_tail_app; [exact A2|]. intros Ea. destruct AR as [[_ Er]|(Sa & _)]; [exact Er|destruct Sa; congruence].
+  - apply (COMMON 11); [apply tok_usage; [exact S|apply tail_ok_follow; exact T]|].
+    cbn [print_clause]. unfold intro. destruct (chN sp 0) as [|[?|?|]]; cbn [app]; assoc; try (apply KWNE; discriminate).
+    rewrite <- (app_nil_r (kw _ _ _)). apply KWNE. apply (usage_word_facts _ (usage_word_in fam (chN sp 1))).
+  - (* value *)
+    apply (COMMON 12); [apply tok_value; [exact S|exact I1|]|cbn [print_clause]; apply KWNE; discriminate].
+    destruct (is_quoted v) eqn:Q.
+    + apply noq_app; [|rewrite HR; apply noq_items; [exact I4|exact ND1]].
+      apply noq_sepstr. destruct cs; [apply all_blank_sepc; exact A1|apply (sep_ok_sepstr _ A1)].
+    + cbn [orb] in A2. apply blank_tail_app; [exact A2|]. intros Ea. destruct AR as [[_ Er]|(Sa & _)]; [exact Er|destruct Sa; congruence].
+  - apply (COMMON 2); [apply tok_blank; assumption|cbn [print_clause]; apply KWNE; discriminate].
+  - (* justified *)
+    destruct rt.
+    + apply (COMMON 5); [apply tok_just_right; exact S|cbn [print_clause]; destruct (just_word_cases (chN sp 0)) as [-> | ->]; apply KWNE; discriminate].
+    + destruct AR as [[Ea _]|(Sa & Rn & Cn)]; [rewrite Ea in A2; discriminate|].
+      assert (Ne : print_clause (CJust false) sp <> []).
+      { cbn [print_clause opt]. rewrite app_nil_r. rewrite <- (app_nil_r (kw _ _ _)). destruct (just_word_cases (chN sp 0)) as [-> | ->]; apply KWNE; discriminate. }
+      pose proof (tok_just_plain sp a R Sa Rn Cn) as Tk.
+      assert (E : print_clause (CJust false) sp ++ a ++ R = (print_clause (CJust false) sp ++ a) ++ R) by apply app_assoc.
+      rewrite E in *. assert (Ne2 : print_clause (CJust false) sp ++ a <> []) by (intros Q; apply app_eq_nil in Q as [Q _]; exact (Ne Q)).
+      rewrite (scan_tok _ R _ Ne2 Tk).
+      unfold merged in *. cbn [flat_map bindings gmap map app]. split; [exact IHm|exact IHf].
+  - apply (COMMON 10); [apply tok_sync; assumption|cbn [print_clause]; destruct (sync_word_cases (chN sp 0)) as [-> | ->]; apply KWNE; discriminate].
+  - destruct separate; [|discriminate].
+    apply (COMMON 9); [apply tok_sign; assumption|].
+    cbn [print_clause]. unfold intro. destruct (chN sp 0) as [|[?|?|]]; cbn [app]; assoc; try (apply KWNE; discriminate). destruct leading; apply KWNE; discriminate.
+  - apply (COMMON 3); [apply tok_external|cbn [print_clause]; rewrite <- (app_nil_r (kw _ _ _)); apply KWNE; discriminate].
+  - apply (COMMON 4); [apply tok_global|cbn [print_clause]; rewrite <- (app_nil_r (kw _ _ _)); apply KWNE; discriminate].
+Qed.
+
+(* ---- from the merged groups to the dictionary ---- *)
+Definition codes_ok (d : dict) : Prop := forall kv, In kv d -> fst kv <= 14.
+
+Lemma code_key_code k : code_key (key_code k) = k.
+Proof. destruct k; reflexivity. Qed.
+
+Lemma key_code_key c : c <= 14 -> key_code (code_key c) = c.
+Proof.
+  intros H.
+  assert (C : c = 0 \/ c = 1 \/ c = 2 \/ c = 3 \/ c = 4 \/ c = 5 \/ c = 6 \/ c = 7 \/ c = 8 \/ c = 9 \/ c = 10 \/ c = 11 \/ c = 12 \/ c = 13 \/ c = 14) by lia.
+  repeat destruct C as [C|C]; subst c; reflexivity.
+Qed.
+
+Lemma get_gmap k d : codes_ok d -> get k (gmap d) = lookup (key_code k) d.
+Proof.
+  unfold get, lookup, gmap. intros C.
+  assert (G : forall acc, fold_left (fun acc kv => if key_eqb (fst kv) k then Some (snd kv) else acc) (map (fun kv => (code_key (fst kv), snd kv)) d) acc
+                        = fold_left (fun acc kv => if fst kv =? key_code k then Some (snd kv) else acc) d acc).
+  { induction d as [|kv d IH]; intros acc; [reflexivity|]. cbn [map fold_left fst snd].
+    assert (E : key_eqb (code_key (fst kv)) k = (fst kv =? key_code k)).
+    { unfold key_eqb. rewrite key_code_key by (apply C; left; reflexivity). reflexivity. }
+    rewrite E. apply IH. intros x I. apply C. right. exact I. }
+  apply G.
+Qed.
+
+Lemma canon_gmap d : codes_ok d -> canon (gmap d) = gmap (sorted d).
+Proof.
+  intros C. unfold canon, sorted, gmap. change key_codes with (map key_code all_keys).
+  rewrite flat_map_concat_map, flat_map_concat_map, concat_map, map_map, map_map. f_equal. apply map_ext_in.
+  intros k _. fold (gmap d). rewrite (get_gmap k d C). destruct (lookup (key_code k) d); [|reflexivity].
+  cbn [map fst snd]. rewrite code_key_code. reflexivity.
+Qed.
+
+Lemma bindings_codes c sp : codes_ok (bindings c sp).
+Proof.
+  intros kv I. destruct c; cbn [bindings] in I;
+    repeat match goal with
+           | H : In _ (_ ++ _) |- _ => apply in_app_or in H as [H|H]
+           | H : In _ (match ?x with Some _ => _ | None => _ end) |- _ => destruct x
+           | H : In _ (if ?x then _ else _) |- _ => destruct x
+           | H : In _ (_ :: _) |- _ => destruct H as [H|H]; [subst kv; cbn [fst]; lia|]
+           | H : In _ [] |- _ => destruct H
+           end.
+Qed.
+
+Lemma all_bindings_codes : forall cs sps, codes_ok (all_bindings cs sps).
+Proof.
+  induction cs as [|c cs IH]; intros sps kv I; [destruct I|]. cbn [all_bindings] in I. apply in_app_or in I as [I|I];
+    [apply (bindings_codes c _ kv I)|apply (IH _ kv I)].
+Qed.
+
+Lemma lookup_app k a b : lookup k (a ++ b) = match lookup k b with Some v => Some v | None => lookup k a end.
+Proof.
+  unfold lookup. rewrite fold_left_app. generalize (fold_left (fun acc kv => if fst kv =? k then Some (snd kv) else acc) a None).
+  induction b as [|kv b IH]; intros acc; cbn [fold_left].
+  - destruct acc; reflexivity.
+  - rewrite IH. rewrite (IH (if fst kv =? k then Some (snd kv) else None)). destruct (fold_left _ b None); [reflexivity|].
+    destruct (fst kv =? k); [reflexivity|]. destruct acc; reflexivity.
+Qed.
+
+Lemma lookup_piece k i d :
+  lookup k (match lookup i d with Some v => [(i, v)] | None => [] end) = if i =? k then lookup i d else None.
+Proof. destruct (lookup i d); unfold lookup; cbn [fold_left fst snd]; destruct (i =? k); reflexivity. Qed.
+
+Lemma lookup_sorted_7 d : lookup 7 (sorted d) = lookup 7 d.
+Proof.
+  unfold sorted, key_codes. cbn [flat_map]. rewrite !lookup_app, !lookup_piece. cbn [N.eqb Pos.eqb]. rewrite app_nil_r || idtac.
+  unfold lookup at 1. cbn [fold_left]. destruct (lookup 7 d); reflexivity.
+Qed.
+
+(* ================================================================ the theorems *)
+Definition record_of (d : dict) (parsed : option (list SR.Model.Picture.elt)) : clause_record :=
+  {| cr_dict := gmap d; cr_parsed := parsed |}.
+
+(* what clause_dict returns when the recogniser delivers the dictionary d: the picture, when there is one, goes through
+   cobol_parser.normalize_picture (Model/Picture.v gen_normalize), whose exceptions pass through *)
+Definition result_for (d : dict) : option (res clause_record) :=
+  match lookup 7 d with
+  | None => Some (Ok (record_of d None))
+  | Some p =>
+      match SR.Model.Picture.gen_normalize p with
+      | None => None
+      | Some (Err e) => Some (Err e)
+      | Some (Ok es) => Some (Ok (record_of d (Some es)))
+      end
+  end.
+
+Theorem clause_dict_printer : forall cs sps, printable cs sps = true ->
+  clause_dict (print_items cs sps) = result_for (expected cs sps).
+Proof.
+  intros cs sps P. unfold printable in P. apply andb_true_iff in P as [ND I].
+  destruct (items_scan cs sps ND I) as [M F]. unfold fuel_free in F.
+  unfold clause_dict, items. rewrite F, M.
+  pose proof (all_bindings_codes cs sps) as C.
+  rewrite (get_gmap KPicture _ C). change (key_code KPicture) with 7.
+  unfold result_for, expected. rewrite lookup_sorted_7, (canon_gmap _ C). reflexivity.
+Qed.
+
+(* ================================================================ respelling: the content of the expected dictionary *)
+Definition letters (w : str) : bool := forallb is_upper_letter w.
+
+Lemma upper_cased m w : kword w = true -> map upper (cased m w) = w.
+Proof.
+  revert m. induction w as [|x w IH]; intros m K; [reflexivity|]. cbn [kword forallb] in K. apply andb_true_iff in K as [Kx K].
+  cbn [cased map]. rewrite (IH (tl m) K). f_equal. unfold kwc, is_upper_letter, is_digit in Kx. unfold upper, lower.
+  destruct (hd false m); [destruct ((65 <=? x) && (x <=? 90)) eqn:E|];
+    match goal with |- (if ?c then _ else _) = _ => destruct c eqn:Q end; lia.
+Qed.
+
+Lemma letters_kword w : letters w = true -> kword w = true.
+Proof.
+  unfold letters, kword. induction w as [|x w IH]; [reflexivity|]. cbn [forallb]. intros H. apply andb_true_iff in H as [H1 H2].
+  rewrite (IH H2), andb_true_r. unfold kwc. rewrite H1. reflexivity.
+Qed.
+
+Lemma letters_of_app a b : letters_of (a ++ b) = letters_of a ++ letters_of b.
+Proof. unfold letters_of. rewrite map_app, filter_app. reflexivity. Qed.
+
+Lemma letters_of_sep s : forallb sepc s = true -> letters_of s = [].
+Proof.
+  unfold letters_of. induction s as [|c s IH]; [reflexivity|]. cbn [forallb map filter]. intros H. apply andb_true_iff in H as [H1 H2].
+  rewrite (IH H2). destruct (sepc_cases c H1) as [->|[->|[->|[->|[->| ->]]]]]; reflexivity.
+Qed.
+
+Lemma letters_of_cased m w : letters w = true -> letters_of (cased m w) = w.
+Proof.
+  intros L. unfold letters_of. rewrite (upper_cased m w (letters_kword w L)). unfold letters in L.
+  induction w as [|x w IH]; [reflexivity|]. cbn [forallb filter] in *. apply andb_true_iff in L as [L1 L2]. rewrite L1, (IH L2). reflexivity.
+Qed.
+
+Lemma usage_norm fam i m :
+  match family_of (map upper (cased m (usage_word fam i))) with Some f => usage_rep f | None => map upper (cased m (usage_word fam i)) end
+  = usage_rep fam.
+Proof.
+  rewrite upper_cased by apply usage_word_kword. unfold usage_word, usage_rep, usage_family.
+  generalize (N.to_nat fam) as a. generalize (N.to_nat i) as b. intros b a.
+  destruct a as [|[|[|[|[|a]]]]]; destruct b as [|[|[|[|[|b]]]]]; try reflexivity;
+    try (destruct a); try (destruct b); reflexivity.
+Qed.
+
+Lemma zero_norm i m : norm_zero (map upper (cased m (zero_word i))) = K_ZERO.
+Proof.
+  unfold zero_word. destruct (N.to_nat i) as [|[|[|j]]]; cbn [nth]; try (rewrite upper_cased by reflexivity; reflexivity).
+  destruct j; rewrite upper_cased by reflexivity; reflexivity.
+Qed.
+
+Lemma normal_bindings c sp : spell_ok sp -> normal (bindings c sp) = abs_bindings c.
+Proof.
+  intros S. destruct c; cbn [bindings abs_bindings normal map fst snd norm_value]; try reflexivity.
+  - unfold kw. rewrite upper_cased by reflexivity. reflexivity.
+  - destruct mn; reflexivity.
+  - unfold kw. rewrite usage_norm. reflexivity.
+  - unfold kw. rewrite zero_norm. reflexivity.
+  - destruct rt; cbn [map fst snd norm_value]; [|reflexivity]. unfold kw. rewrite upper_cased by reflexivity. reflexivity.
+  - destruct (side =? 0); cbn [map fst snd norm_value]; [reflexivity|]. unfold side_text. rewrite letters_of_app.
+    rewrite (letters_of_sep _ (proj2 (sep_sepstr sp 0 S))). unfold kw, side_word. destruct (side =? 1); rewrite letters_of_cased by reflexivity; reflexivity.
+  - unfold kw at 1. rewrite upper_cased by (destruct leading; reflexivity). destruct separate; cbn [map fst snd norm_value]; [|reflexivity].
+    unfold separate_text. rewrite !letters_of_app, (letters_of_sep _ (proj2 (sep_sepstr sp 2 S))). unfold kw at 1.
+    rewrite letters_of_cased by reflexivity. cbn [app]. destruct (chb sp 1); reflexivity.
+Qed.
+
+Lemma normal_app a b : normal (a ++ b) = normal a ++ normal b.
+Proof. apply map_app. Qed.
+
+Lemma normal_all : forall cs sps, items_ok cs sps = true -> normal (all_bindings cs sps) = flat_map abs_bindings cs.
+Proof.
+  induction cs as [|c cs IH]; intros sps I; [reflexivity|]. cbn [items_ok] in I.
+  apply andb_true_iff in I as [I I4]. apply andb_true_iff in I as [I _]. apply andb_true_iff in I as [I1 _].
+  cbn [all_bindings flat_map]. rewrite normal_app, (normal_bindings c _ (clause_ok_spell c _ I1)), (IH _ I4). reflexivity.
+Qed.
+
+Lemma lookup_normal k d : lookup k (normal d) = option_map (norm_value k) (lookup k d).
+Proof.
+  unfold lookup, normal. change (@None str) with (option_map (norm_value k) (@None str)) at 1.
+  generalize (@None str). induction d as [|kv d IH]; intros acc; [reflexivity|].
+  cbn [map fold_left fst snd]. destruct (fst kv =? k) eqn:E.
+  - apply N.eqb_eq in E. rewrite <- IH. rewrite E. reflexivity.
+  - apply IH.
+Qed.
+
+Lemma normal_sorted d : normal (sorted d) = sorted (normal d).
+Proof.
+  unfold sorted. unfold normal at 1. rewrite flat_map_concat_map, flat_map_concat_map, concat_map, map_map. f_equal. apply map_ext.
+  intros k. rewrite lookup_normal. destruct (lookup k d); reflexivity.
+Qed.
+
+Theorem expected_content : forall cs sps, items_ok cs sps = true -> normal (expected cs sps) = abstract cs.
+Proof. intros cs sps I. unfold expected, abstract. rewrite normal_sorted, (normal_all cs sps I). reflexivity. Qed.
+
+(* the specification's key numbers of a model dictionary *)
+Definition codes (g : groups) : dict := map (fun kv => (key_code (fst kv), snd kv)) g.
+
+Lemma codes_gmap d : codes_ok d -> codes (gmap d) = d.
+Proof.
+  intros C. induction d as [|kv d IH]; [reflexivity|]. unfold codes, gmap in *. cbn [map fst snd].
+  rewrite key_code_key by (apply C; left; reflexivity). rewrite IH by (intros x I; apply C; right; exact I). destruct kv; reflexivity.
+Qed.
+
+Lemma sorted_codes d : codes_ok (sorted d).
+Proof.
+  intros kv I. unfold sorted in I. apply in_flat_map in I as (k & Ik & I). destruct (lookup k d); [|destruct I].
+  destruct I as [<-|[]]. cbn [fst]. unfold key_codes in Ik. cbn [In] in Ik. lia.
+Qed.
+
+Lemma result_for_ok d r : result_for d = Some (Ok r) ->
+  cr_dict r = gmap d /\ cr_parsed r = match lookup 7 d with Some p => match SR.Model.Picture.gen_normalize p with Some (Ok es) => Some es | _ => None end | None => None end.
+Proof.
+  unfold result_for. destruct (lookup 7 d) as [p|].
+  - destruct (SR.Model.Picture.gen_normalize p) as [[es|e]|]; try discriminate. intros H. injection H as <-. split; reflexivity.
+  - intros H. injection H as <-. split; reflexivity.
+Qed.
+
+Theorem respelling_same_order : forall cs sps sps' r r', printable cs sps = true -> printable cs sps' = true ->
+  clause_dict (print_items cs sps) = Some (Ok r) -> clause_dict (print_items cs sps') = Some (Ok r') ->
+  normal (codes (cr_dict r)) = abstract cs /\ normal (codes (cr_dict r')) = abstract cs /\ cr_parsed r = cr_parsed r'.
+Proof.
+  intros cs sps sps' r r' P P' H H'. rewrite (clause_dict_printer cs sps P) in H. rewrite (clause_dict_printer cs sps' P') in H'.
+  destruct (result_for_ok _ _ H) as [D Q]. destruct (result_for_ok _ _ H') as [D' Q'].
+  unfold printable in P, P'. apply andb_true_iff in P as [_ I]. apply andb_true_iff in P' as [_ I'].
+  rewrite D, D', !codes_gmap by apply sorted_codes. rewrite (expected_content cs sps I), (expected_content cs sps' I').
+  split; [reflexivity|split; [reflexivity|]]. rewrite Q, Q'.
+  assert (E : forall s, items_ok cs s = true -> lookup 7 (expected cs s) = lookup 7 (abstract cs)).
+  { intros s Is. rewrite <- (expected_content cs s Is), lookup_normal. destruct (lookup 7 (expected cs s)); reflexivity. }
+  rewrite (E sps I), (E sps' I'). reflexivity.
+Qed.
